@@ -12,1286 +12,1346 @@ Definition show_fres (r : fres) : string :=
   end.
 Definition check (rs : list rune) : string := digest (show_fres (format_res rs)).
 Definition full (rs : list rune) : string := show_fres (format_res rs).
-Eval vm_compute in ("<<<M3510>>>" ++ check (runes_of_ascii "options { StringPrefixLenType // c2
-= // c3a
-  // c3b
-u8 // c4
-; ArrayPrefixLenType // c6a
-  // c6b
-= // c7a
-  // c7b
-u8
-    // c8
-; // c9a
-  // c9b
-FixedStringPadFromLeft // c10
-= // c11
-true // c12
+Eval vm_compute in ("<<<M3519>>>" ++ check (runes_of_ascii "// top
+options
+    // c0
+{ // c1
+StringPrefixLenType // c2
+=
+    // c3
+u8 // c4a
+  // c4b
+; // c5a
+  // c5b
+ArrayPrefixLenType // c6
+= u8 ; // c9
+FixedStringPadFromLeft
+    // c10
+= // c11a
+  // c11b
+true // c12a
+  // c12b
 ;
     // c13
-FixedStringPadChar
-    // c14
-= // c15a
-  // c15b
+FixedStringPadChar // c14
+= // c15
 ' ' // c16
-;
-    // c17
-}
-    // c18
-packet Logout // c20
-{ repeat // c22a
-  // c22b
+; } // c18
+packet
+    // c19
+Logout { // c21a
+  // c21b
+repeat
+    // c22
 string
     // c23
-Px , // c25a
-  // c25b
-repeat
-    // c26
-string
-    // c27
-seqNo
-    // c28
-, // c29a
+Px , repeat // c26a
+  // c26b
+string seqNo , // c29a
   // c29b
-InMsgkind64 { // c31a
-  // c31b
-uint16 OrderId , // c34
+InMsgkind64 // c30a
+  // c30b
+{ uint16 // c32a
+  // c32b
+OrderId , // c34
 char[]
     // c35
-count , // c37a
-  // c37b
-repeat // c38
-i32 // c39a
-  // c39b
-venue , } // c42
-, // c43a
-  // c43b
-} packet Heartbeat { // c47
-float32 // c48
-tag7
-    // c49
-, // c50
-repeat // c51
-InPrice50 { repeat // c54
-char[ // c55a
-  // c55b
-5 ] // c57a
-  // c57b
-lastPx // c58
+count // c36a
+  // c36b
+, repeat // c38
+i32 // c39
+venue // c40a
+  // c40b
+, } ,
+    // c43
+} // c44a
+  // c44b
+packet // c45a
+  // c45b
+Heartbeat
+    // c46
+{ float32 // c48
+tag7 ,
+    // c50
+repeat
+    // c51
+InPrice50 // c52a
+  // c52b
+{
+    // c53
+repeat // c54
+char[ // c55
+5 // c56a
+  // c56b
+] // c57
+lastPx // c58a
+  // c58b
 , // c59
 InRef42
     // c60
-{ // c61
-u8 pad0 // c63a
-  // c63b
+{
+    // c61
+u8 // c62
+pad0
+    // c63
 , // c64a
   // c64b
-} // c65a
-  // c65b
-, uint32 // c67a
+} ,
+    // c66
+uint32 // c67a
   // c67b
-Acct // c68a
-  // c68b
-, // c69a
-  // c69b
-repeat // c70
+Acct , repeat // c70
 Logout
     // c71
-, repeat // c73
-char[
+, repeat char[
     // c74
-5 ]
-    // c76
-Qty // c77a
-  // c77b
-, // c78
+5
+    // c75
+] // c76a
+  // c76b
+Qty // c77
+,
+    // c78
 }
     // c79
-, repeat // c81
-InSeqno30
-    // c82
-{ // c83a
-  // c83b
-repeat
-    // c84
-Logout // c85
+, // c80a
+  // c80b
+repeat // c81a
+  // c81b
+InSeqno30 {
+    // c83
+repeat // c84a
+  // c84b
+Logout
+    // c85
 ,
     // c86
-} , // c88
-@leftPad // c89a
-  // c89b
-( '0'
-    // c91
-) char[ // c93a
-  // c93b
-12 ]
-    // c95
-Acct // c96a
-  // c96b
-,
-    // c97
-char[] // c98a
-  // c98b
-Side2 , // c100a
-  // c100b
-repeat // c101a
-  // c101b
-string // c102a
-  // c102b
-msgKind // c103
-, // c104
-} // c105
-packet // c106
-Ack // c107a
-  // c107b
-{ // c108
-Heartbeat // c109a
-  // c109b
+} // c87a
+  // c87b
+, // c88a
+  // c88b
+@leftPad
+    // c89
+( '0' ) char[ 12
+    // c94
+] Acct // c96
+, // c97a
+  // c97b
+char[]
+    // c98
+Side2
+    // c99
+, repeat // c101
+string msgKind
+    // c103
+, } // c105
+packet Ack { // c108a
+  // c108b
+Heartbeat
+    // c109
 ,
     // c110
-char[
-    // c111
+char[ // c111a
+  // c111b
 8
     // c112
-]
-    // c113
-seqNo , float64 clOrdID
-    // c117
-, } // c119a
+] seqNo // c114a
+  // c114b
+, // c115
+float64
+    // c116
+clOrdID // c117
+, // c118a
+  // c118b
+} // c119a
   // c119b
-packet Trade { char[] // c123a
-  // c123b
-OrderId
-    // c124
-, // c125
-f64 // c126a
-  // c126b
-Side2 // c127
-,
-    // c128
-zchar[
-    // c129
-8 ]
-    // c131
-f1 // c132a
-  // c132b
-, string Qty // c135a
-  // c135b
-, // c136
-float64 // c137a
-  // c137b
-seqNo , // c139
+packet Trade { // c122
+char[] OrderId // c124
+, f64
+    // c126
+Side2 // c127a
+  // c127b
+, zchar[ // c129a
+  // c129b
+8 ] // c131a
+  // c131b
+f1 // c132
+, string // c134
+Qty // c135
+, float64
+    // c137
+seqNo
+    // c138
+, // c139
 repeat // c140a
   // c140b
-Logout
-    // c141
+Logout // c141a
+  // c141b
 , // c142
-} // c143
-packet
-    // c144
-Order // c145
-{
-    // c146
+} // c143a
+  // c143b
+packet // c144a
+  // c144b
+Order
+    // c145
+{ // c146a
+  // c146b
 f32
     // c147
-OrderId // c148a
-  // c148b
+OrderId
+    // c148
 , repeat // c150
-u8 x , // c153
-Ack // c154a
-  // c154b
-, // c155
-zchar[
-    // c156
-7 ] // c158a
-  // c158b
-Note , // c160
-}
-    // c161
-root packet // c163
-Logon {
+u8 // c151
+x // c152
+, Ack , zchar[ // c156a
+  // c156b
+7 ]
+    // c158
+Note // c159
+, } root
+    // c162
+packet
+    // c163
+Logon // c164a
+  // c164b
+{
     // c165
-@rightPad ( '\x00' ) // c169a
-  // c169b
-char[ // c170a
-  // c170b
-9
+@rightPad // c166a
+  // c166b
+( '\x00' ) // c169
+char[ 9
     // c171
-]
-    // c172
-f1 ,
-    // c174
+] f1 , // c174a
+  // c174b
 } // c175
 ")).
-Eval vm_compute in ("<<<M3839>>>" ++ check (runes_of_ascii "root packet a1 {
-    repeat zchar int,
-    string u,
-    string u8x @lengthOf(msg_type),
-    rootA `it's`,
-    @tag(255)
-    //x
-    uint16 packetx @lengthOf(Z9_) `it's`,
-    @leftPad('\x00')
-    uint8 zchar,
-    @tag(007)
-    @tag(4294967296)
-    trueish @lengthOf(i64_),
-    uint8 repeatCount `crlf
-        line`,
-    string metadata,
-    match len as metadata {
-        0 : Packet,
-    },
-}
-
-packet As {
-    repeat i8 T,
-    pack,
-    @lengthOf(stringy)
-    char[0] Pad,
-    repeat char[0] tag,
-    @lengthOf(roots)
-    uint16 string_ @lengthOf(zchar) `{ , }`,
-    @lengthOf(a1)
-    repeat x_y_z {
-        int8 f32a,
-        packetx {
-            match Header as Packet {
-                [""it's""] : uint8x,
-                1 : u128,
-                ""\" ++ [233]%N ++ runes_of_ascii """ : MetaDataX,
-                [1, ""a\\"", ""x y""] : f32a,
-                65535 : BodyLength,
-            },
-            msg_type @calculatedFrom(""abc"") `// not a comment`,
-            match chars as Header {
-                7 : x_y_z,
-                10 : matchKey,
-                ""x y"" : x_y_z,
-                007 : float,
-            },// a // b
-            uint8x u,
-        },
-        repeat Foo {
-            //	t
-            repeat float64 chars,//x
-            match len as Pad {
-                [1, ""\" ++ [233]%N ++ runes_of_ascii """] : u8x,
-                10 : i64_,
-                [""CRC32""] : Logon,
-                [255, ""CRC32""] : u8x,
-            },
-        },
-    },
-    @lengthOf(Packet)
-    @leftPad('0')
-    @rightPad()
-    zchar[3] uint8x,
-    match int as pack {
-        // " ++ [128512]%N ++ runes_of_ascii " emoji
-        [3] : string_,
-        ""a\""b"" : repeatCount,
-        007 : zchar,
-    },
-    repeat uint8 lengthOf `// not a comment`,
-}
-
-options {
-    Logon = ""packet""
-    // @lengthOf(
-    // `tick` ""quote"" 'q'
-    rootA = true
-    packetx = false
-    f32a = ""a\\""
-}
-
-root packet u {
-    repeat char[] body,//
-    @calculatedFrom(""a\""b"")
-    @lengthOf(Foo)
-    A @calculatedFrom(""{,}""),
-}
-
-options {
-    trueish = 0
-    charz = ""abc""
-}")).
-Eval vm_compute in ("<<<M871>>>" ++ check (runes_of_ascii "// `tick` ""quote"" 'q'
-MetaData
-tag{ u8 lengthOf `it's`
-,
-zchar[  3] msg_type , Pad a1`doc`
-    , } packet int { @tag( 42
-    )char[] trueish`line1
-line2`
-    // a // b
-    , int64 A @calculatedFrom( ""// no comment"" )
-`
-`,	@lengthOf( u8x )
-    @leftPad (' '
-    ) @rightPad
-(
-)
-    repeat int64 float ,
-    // a // b
-    char[ 00
-    ] Pad `// not a comment` ,@rightPad (// packet A { u8 x, }
-)
-    float {zchar[
-0	] i8i8,	pack
-    {_x falsey
-, repeat
-    string Packet `two words`
-    ,match
-rootA as matchKey
-    { [ ""it's""	,// `tick` ""quote"" 'q'
-255 ]:Packet  , // packet A { u8 x, }
-""a\\"" : i8i8 , [ ""a	b""//
-,
-    ""CRC32""
-] :
-    crc,
-42 // trailing space 
-:Packet
-007
-: MetaDataX 0: float , } ,	} , i16 Z9_
-@calculatedFrom(
-    ""{,}"")// c
-, string float @lengthOf( roots // c
-) `doc` , }
-    //x
-    , @rightPad //
-( '0' ) u16 f32a
-//	t
+Eval vm_compute in ("<<<M1268>>>" ++ check (runes_of_ascii "options { Logon = ""abc""
+    ;options1
+=  0
+;
+len ='0' ; tag = float64;
+}packet options1 { @lengthOf( Header) int16 BodyLength , //
+@tag(
+7 ) @calculatedFrom( """ ++ [233]%N ++ runes_of_ascii "t" ++ [233]%N ++ runes_of_ascii """ ) @lengthOf(
+    //	t
+    i8i8 ) char[3 ]
+// " ++ [27880; 37322]%N ++ runes_of_ascii "
+//x
+tag `// not a comment`  , match
+    // trailing space 
+    body  as f32a { 3
+    :As } ,
+@lengthOf( a1
+    )	zchar[
+00 ] pack @calculatedFrom( ""x y""
+    ) , @lengthOf(
 // packet A { u8 x, }
-, } root
-    packet  Header {
-}options	{
-trueish// packet A { u8 x, }
-=char[
-    007 //x
-]
-; asx = '\x00'
-stringy=
-'\x00';  roots	= ' '
-    }packet BodyLength { @leftPad ( // @lengthOf(
-'0' ) f32a @calculatedFrom(
-    // " ++ [27880; 37322]%N ++ runes_of_ascii "
-    ""a\\"" ) `doc` ,repeat a1	{
-msg_type , }
-    , @leftPad
-( '0' ) @calculatedFrom( // `tick` ""quote"" 'q'
-""" ++ [128512]%N ++ runes_of_ascii """ )	@rightPad
-    ()// " ++ [128512]%N ++ runes_of_ascii " emoji
-int32
-    tag@lengthOf( string_ ) `doc`
-    ,	match
-matchKey as
-f32a{ """ ++ [128512]%N ++ runes_of_ascii """:	body,	}	, repeat // " ++ [128512]%N ++ runes_of_ascii " emoji
-u lengthOf ,char[] Foo `` , @lengthOf(	zchar ) Z9_	{ i32 calculatedFrom ,} , @leftPad ( '0' ) @calculatedFrom( ""\n"" )  @lengthOf( body
-) i32 As
-@calculatedFrom(	""CRC32"" ) `u8 x,` , repeat
-float // a // b
-A , a1@lengthOf(
-trueish )
+/// triple
+msg_type ) @calculatedFrom(
+    ""a	b"") @calculatedFrom( """ ++ [128512]%N ++ runes_of_ascii """  )
+    repeatCount
+{
+    char[]//	t
+string_
+,
+    match
+x as repeatCount { 10 // " ++ [128512]%N ++ runes_of_ascii " emoji
+:a1 ,
+    65535
+    // packet A { u8 x, }
+    : // c
+u8x , 10: T  ,""// no comment"" : i8i8
+, 3:lengthOf , 0: chars	, } , match x
+as pack	{ 7:Foo	1 :msg_type ,
+0123456789 :
+    o,	007	:	MetaDataX ""1"" :falsey ,
+    }
+,	repeat
+    int8
+    Header`say ""hi""` ,  } ,
+    BodyLength @calculatedFrom( """ ++ [28040; 24687]%N ++ runes_of_ascii """
+    ) /// triple
+, //x
+lengthOf`crlf
+line` , @lengthOf( matchKey ) @calculatedFrom( ""a	b""
+)@tag(0  )
+    repeat
+    MetaDataX // packet A { u8 x, }
+{ //
+stringy string_ ,
+    Packet @lengthOf( // " ++ [128512]%N ++ runes_of_ascii " emoji
+rootA ) ,} , @lengthOf( a1	) repeat chars {
+metadata
+// " ++ [128512]%N ++ runes_of_ascii " emoji
+//	t
+@lengthOf(	calculatedFrom
+// c
+// trailing space 
+)
+    `say ""hi""` ,
+    options1@lengthOf( charz  )  `line1
+line2` ,
+repeat
+MetaDataX{ repeat uint8
+falsey ,  zchar[
+0123456789 ]
+rootA @calculatedFrom( """ ++ [128512]%N ++ runes_of_ascii """
+    )
+    `say ""hi""`
+, }
+    ,} //	t
+, } MetaData charz /// triple
+{ uint32
+_x , matchKey float
+,  stringy a1 ,
+}packet
+Header { } packet	T
+    {
+    @tag(
+    7 )
+//x
+// trailing space 
+zchar[ 00	]
+    falsey
+`it's`, char[] MetaDataX ,
+BodyLength
+    { packetx// " ++ [27880; 37322]%N ++ runes_of_ascii "
+int ,} ,@lengthOf(  Header
+    ) A , charz@lengthOf(	x_y_z ), int64
+charz, // " ++ [128512]%N ++ runes_of_ascii " emoji
+repeat
     //
-    `{ , }` ,
-} 	 ")).
-Eval vm_compute in ("<<<M3915>>>" ++ check (runes_of_ascii "options {
+    int64
+leftPad,@tag( 7)@calculatedFrom( ""{,}"" )
+pack
+    // trailing space 
+    ,
+}")).
+Eval vm_compute in ("<<<M4052>>>" ++ check (runes_of_ascii "
 
-    StringPrefixLenType=
+  packet  //x
+	Logon{ @tag(
+    255) match
 
-    u16  ; 
-ArrayPrefixLenType =	u16;
-}	packet
-    SampleBinary {
-    uint16
-MsgType`" ++ [28040; 24687; 31867; 22411]%N ++ runes_of_ascii "`	,u16
-	BodyLenght@lengthOf( Body
+    roots 
+as	u128
+{ ""`tick`""  //x
+		:
 
+    matchKey
+    ,1
+
+:  Foo}
+,
+
+@tag(
+65535 )
+
+@lengthOf( charz)
+
+    @calculatedFrom(""// no comment"") 
+i8	trueish
+
+, float32
+    o 
+@lengthOf( i8i8 ) , 
+@rightPad (
+' ' 
 )
 
-`" ++ [28040; 24687; 20307; 38271; 24230]%N ++ runes_of_ascii "`	,match MsgType
-as
-Body
-    {
+    u8x
+    `two words`,
+repeat	u64
+i8i8	,
 
-    1 : Logon , 
-2
-	: 
-Logout ,3	:
+    match
+	zchar
 
-    Heartbeat
+    as x_y_z
+
+    {  """ ++ [128512]%N ++ runes_of_ascii """ 
+: charz	, } 	 // @lengthOf(
+    	,
+
+@lengthOf( repeatCount )  // " ++ [128512]%N ++ runes_of_ascii " emoji
+
+u32 
+falsey
+`// not a comment`
+
+    ,	}
+
+    options  // @lengthOf(
+{	// " ++ [128512]%N ++ runes_of_ascii " emoji
+  falsey
+	=	""" ++ [128512]%N ++ runes_of_ascii """
+;
+packetx
+
+    =
+
+""" ++ [233]%N ++ runes_of_ascii "t" ++ [233]%N ++ runes_of_ascii """
+    // @lengthOf(
+      // @lengthOf(
+	u128// " ++ [128512]%N ++ runes_of_ascii " emoji
+    =  """";options1 =	true
+
+    ; // packet A { u8 x, }
+  }options
+{float	=
+""a	b""
+	; packetx  =	// `tick` ""quote"" 'q'
+    	true	calculatedFrom
+    =
+	u64; Packet=
+'\x00' ;
+BodyLength =
+false  //	t
+	; }MetaData falsey{ 	 // " ++ [27880; 37322]%N ++ runes_of_ascii "
+	BodyLength Logon `line1
+line2` ,
+
+zchar	chars
+    `a\`
+, repeatCount  
+  // " ++ [27880; 37322]%N ++ runes_of_ascii "
+
+// `tick` ""quote"" 'q'
+    	BodyLength
 	,
-    4  :RiskControlRequest
-	,
-    5 
-: RiskControlResponse 
+zchar
+    i8i8 
 ,
-    } 
-,
-	@calculatedFrom( ""CRC32""
-    )
-u32  Ckecksum
-
-`" ++ [26657; 39564; 21644]%N ++ runes_of_ascii "`
-    ,} 
-packet
-	Logon	{
-    @leftPad (
-	'0' )  char[ 10  ]  UserName
-
-    `" ++ [29992; 25143; 21517]%N ++ runes_of_ascii "`
-	,
-string Password
-`" ++ [23494; 30721]%N ++ runes_of_ascii "`,
-uint64	ClientId `" ++ [23458; 25143; 31471]%N ++ runes_of_ascii "ID`
-,
-
-u16
-HeartbeatInterval	`" ++ [24515; 36339; 38388; 38548]%N ++ runes_of_ascii "`
-
-,
-
-    }
-packet
-
-    Logout
-
-    {  @rightPad  (
-'0' ) char[ 
-10
-    ]  UserName `" ++ [29992; 25143; 21517]%N ++ runes_of_ascii "`,
-
-    uint64	ClientId 
-`" ++ [23458; 25143; 31471]%N ++ runes_of_ascii "ID` , }
-    packet	Heartbeat
+}packet	packetx
 {
-}
-packet RiskControlRequest
 
-    {	string UniqueOrderId`" ++ [21807; 19968; 35746; 21333; 21495]%N ++ runes_of_ascii "`  , 
-char[
+    repeat	int8
+Logon , @calculatedFrom(
 
-    16]ClOrdID `" ++ [23458; 25143; 35746; 21333; 21495]%N ++ runes_of_ascii "`	,char[
-	3
-] 
-MarketID  `" ++ [24066; 22330]%N ++ runes_of_ascii "id` ,
-char[
+""abc"" ) 
+match
 
-    12
+    Logon
+
+    as
+BodyLength {65535  /// triple
+:pack  ,// a // b
+  [ ""CRC32""
+    ,	""it's"" ,  4294967296,""CRC32"",
+""a\\"" , ""`tick`"" , 255 ,	007
 ]
-SecurityID `" ++ [35777; 21048; 20195; 30721]%N ++ runes_of_ascii "`,	char  Side
-	`" ++ [20080; 21334; 26041; 21521]%N ++ runes_of_ascii "`
-	,
-    char
-    OrderType
+	// packet A { u8 x, }
 
-`" ++ [35746; 21333; 31867; 22411]%N ++ runes_of_ascii "` 
-,  u64 Price `" ++ [20215; 26684]%N ++ runes_of_ascii "`
+  :
+    matchKey
+    ,
+    [
+255
 
-,u32	Qty
+]
 
-`" ++ [25968; 37327]%N ++ runes_of_ascii "`, 
-repeat
-string
-ExtraInfo
-	`" ++ [38468; 21152; 20449; 24687]%N ++ runes_of_ascii "`,repeat
-
-    SubOrder
-
-    { char[
-    16 ]
-
-    ClOrdID `" ++ [23376; 35746; 21333; 21495]%N ++ runes_of_ascii "`,u64
-
-Price`" ++ [23376; 35746; 21333; 20215; 26684]%N ++ runes_of_ascii "` 
-,  u32 Qty `" ++ [23376; 35746; 21333; 25968; 37327]%N ++ runes_of_ascii "`
+    :	falsey ,	}
 
     ,
-}, }
-packet	RiskControlResponse 
+	repeat Packet	// c
+    `tab	here`
+, 
+@lengthOf(
+
+    charz)
+	zchar[
+
+    42  ] tag
+
+@calculatedFrom(	""// no comment""
+) `
+`,
+
+    uint64//	t
+      u8x
+`" ++ [28040; 24687; 31867; 22411]%N ++ runes_of_ascii "` 
+, }
+")).
+Eval vm_compute in ("<<<M4297>>>" ++ check (runes_of_ascii "
+
+  options {
+    StringPrefixLenType	= 
+u16
+	;
+ArrayPrefixLenType  = 
+u16;}packet
+SampleBinary {
+	uint16 
+MsgType
+
+    `" ++ [28040; 24687; 31867; 22411]%N ++ runes_of_ascii "`
+,
+
+u16
+BodyLenght 
+@lengthOf( 
+Body) `" ++ [28040; 24687; 20307; 38271; 24230]%N ++ runes_of_ascii "`	, 
+match
+MsgType
+as 
+Body 
 {
-string
-    UniqueOrderId
+    1
 
-`" ++ [21807; 19968; 35746; 21333; 21495]%N ++ runes_of_ascii "`
+    : 
+Logon
+
+    ,	2 :  Logout
+    ,3:Heartbeat,
+4 :
+RiskControlRequest,  5
+
+:
+
+RiskControlResponse ,
+	}
+, @calculatedFrom(
+""CRC32"")  u32 Ckecksum
+	`" ++ [26657; 39564; 21644]%N ++ runes_of_ascii "`
+    ,
+}
+
+    packet
+
+Logon
+
+{ @leftPad
+(	'0') char[ 10 ]
+	UserName `" ++ [29992; 25143; 21517]%N ++ runes_of_ascii "`	, string Password`" ++ [23494; 30721]%N ++ runes_of_ascii "` ,
+    uint64
+	ClientId
+
+`" ++ [23458; 25143; 31471]%N ++ runes_of_ascii "ID` 
+,
+    u16	HeartbeatInterval 
+`" ++ [24515; 36339; 38388; 38548]%N ++ runes_of_ascii "` ,
+
+    }  packet
+Logout  { 
+@rightPad
+
+    (
+	'0')
+    char[
+10
+
+]
+
+UserName  `" ++ [29992; 25143; 21517]%N ++ runes_of_ascii "`
+
+,uint64
+	ClientId
+`" ++ [23458; 25143; 31471]%N ++ runes_of_ascii "ID` , 
+}packet
+    Heartbeat
+    {  }
+	packet
+
+RiskControlRequest
+
+    {	string
+    UniqueOrderId `" ++ [21807; 19968; 35746; 21333; 21495]%N ++ runes_of_ascii "`
 
 ,
+char[
+16  ]  ClOrdID	`" ++ [23458; 25143; 35746; 21333; 21495]%N ++ runes_of_ascii "`
+	,
+char[
+3 ] MarketID
 
-i32	Status
+`" ++ [24066; 22330]%N ++ runes_of_ascii "id`
 
-    `" ++ [29366; 24577]%N ++ runes_of_ascii "`
 ,
-    string Msg
-    `" ++ [32467; 26524; 20449; 24687]%N ++ runes_of_ascii "`
+	char[ 12 ] SecurityID
 
-,repeat
+`" ++ [35777; 21048; 20195; 30721]%N ++ runes_of_ascii "`
+	, char
+	Side
+
+    `" ++ [20080; 21334; 26041; 21521]%N ++ runes_of_ascii "`
+
+    ,
+
+    char
+	OrderType `" ++ [35746; 21333; 31867; 22411]%N ++ runes_of_ascii "` ,  u64  Price 
+`" ++ [20215; 26684]%N ++ runes_of_ascii "`,
+u32 Qty 
+`" ++ [25968; 37327]%N ++ runes_of_ascii "` ,repeat
+    string
+    ExtraInfo	`" ++ [38468; 21152; 20449; 24687]%N ++ runes_of_ascii "`
+    ,repeat SubOrder
+{  char[16 ]
+ClOrdID
+    `" ++ [23376; 35746; 21333; 21495]%N ++ runes_of_ascii "` ,
+
+    u64
+
+Price 
+`" ++ [23376; 35746; 21333; 20215; 26684]%N ++ runes_of_ascii "` 
+,
+
+u32 Qty`" ++ [23376; 35746; 21333; 25968; 37327]%N ++ runes_of_ascii "` ,
+}  , }packet
+RiskControlResponse
+
+{ 
+string UniqueOrderId  `" ++ [21807; 19968; 35746; 21333; 21495]%N ++ runes_of_ascii "`
+    ,i32
+
+Status	`" ++ [29366; 24577]%N ++ runes_of_ascii "` ,string 
+Msg
+`" ++ [32467; 26524; 20449; 24687]%N ++ runes_of_ascii "`
+,repeat  Detail,
+
+}
+packet
 Detail
 
-,
-
-    }packet
-
-    Detail{
-	string
-RuleName`" ++ [35268; 21017; 21517; 31216]%N ++ runes_of_ascii "` ,
-u16  Code
-
-`" ++ [21407; 22240; 20195; 30721]%N ++ runes_of_ascii "`
-    ,  }
+    {
+	string RuleName `" ++ [35268; 21017; 21517; 31216]%N ++ runes_of_ascii "`  ,u16
+	Code  `" ++ [21407; 22240; 20195; 30721]%N ++ runes_of_ascii "`  ,  }
 ")).
-Eval vm_compute in ("<<<M3824>>>" ++ check (runes_of_ascii "root packet u128 {
-    pack @lengthOf(MetaDataX) `say ""hi""`,
-    repeat lengthOf {
-        int8 o `crlf
-        line`,
-    },
-    @lengthOf(tag)
-    char[007] chars @lengthOf(MetaDataX),
-    u @calculatedFrom(""\n""),
-    @lengthOf(Z9_)
-    u32 A @lengthOf(charz),
-    u16 float @lengthOf(As),
-    A u128 `a\`,
-    x_y_z @lengthOf(stringy) `a\`,
-}
-
-root packet x_y_z {
-    @lengthOf(crc)
-    i64 pack @lengthOf(float) `say ""hi""`,
-}
-
-MetaData uint8x {
-}
-
-root packet trueish {
-    zchar[4294967296] float @lengthOf(matchKey),
-    @lengthOf(o)
-    repeat float rootA,
-    @tag(7)
-    int64 falsey @lengthOf(options1),
-    Logon {
-        tag @lengthOf(a1),
-        asx `// not a comment`,
-        float32 zchar,
-        Pad @calculatedFrom(""`tick`""),
-    },// trailing space 
-    @lengthOf(int)
-    repeat rootA u128,
-    repeat char[] leftPad,
-    int8 _x,
-    Packet ``,
-    // " ++ [27880; 37322]%N ++ runes_of_ascii "
-    match len as uint8x {
-        ""a	b"" : lengthOf,
-        ""\" ++ [233]%N ++ runes_of_ascii """ : pack,
-        [
-            255, ""x y"", ""packet"", """ ++ [128512]%N ++ runes_of_ascii """, ""\" ++ [233]%N ++ runes_of_ascii """,
-            ""{,}""
-        ] : lengthOf,
-        [
-            00, 00, 007, 0, ""abc"",
-            ""a\\"", ""// no comment"", ""packet""
-        ] : Packet,
-    },
-    @leftPad()
-    u i64_,
-}
-
-packet trueish {
-}")).
-Eval vm_compute in ("<<<M3603>>>" ++ check (runes_of_ascii "packet chars {
-    i8 Z9_,
-    match zchar as Logon {
-        00 : i8i8,
-        [
-            42, 10, 4294967296, ""// no comment"", ""it's"",
-            ""`tick`"", ""x y"", ""a\""b""
-        ] : leftPad,
-        [""\" ++ [233]%N ++ runes_of_ascii """] : A,
-        [""abc"", ""1""] : zchar,
-        3 : x,
-        3 : x_y_z,
-    },
-    uint8x @calculatedFrom(""{,}""),
-}// `tick` ""quote"" 'q'
-
-packet calculatedFrom {
-    int32 T,
-    @lengthOf(float)
-    f32a len,
-    @calculatedFrom(""" ++ [233]%N ++ runes_of_ascii "t" ++ [233]%N ++ runes_of_ascii """)
-    int32 f32a @lengthOf(matchKey) `" ++ [233]%N ++ runes_of_ascii "`,
-    charz @calculatedFrom(""x y""),
-}
-
-root packet stringy {
-    @lengthOf(Logon)
-    int64 len @calculatedFrom(""CRC32""),
-    T @calculatedFrom(""1"") `line1
-        line2`,
-    @tag(255)
-    @tag(7)
-    @tag(007)
-    repeat packetx len,
-    @tag(1)
-    repeat zchar[0] float,//
-    @lengthOf(lengthOf)
-    repeat x_y_z {
-        char[10] u `
-                `,
-        MetaDataX a1 `u8 x,`,
-    },
-    @tag(1)
-    string repeatCount `" ++ [28040; 24687; 31867; 22411]%N ++ runes_of_ascii "`,
-    int8 int @calculatedFrom(""// no comment""),
-}
-
-packet asx {
-    @leftPad('\x00')
-    char[00] u8x @calculatedFrom(""" ++ [233]%N ++ runes_of_ascii "t" ++ [233]%N ++ runes_of_ascii """),
-    zchar[007] asx @calculatedFrom(""" ++ [128512]%N ++ runes_of_ascii """),
-    repeat MetaDataX metadata `
-        `,
-}")).
-Eval vm_compute in ("<<<M1257>>>" ++ check (runes_of_ascii "//	t
-MetaData i8i8 {
-char packetx`
-`
+Eval vm_compute in ("<<<M281>>>" ++ check (runes_of_ascii "// @lengthOf(
+root packet  leftPad{ match Logon as	msg_type { ""it's"" :
+    int , """ ++ [128512]%N ++ runes_of_ascii """
+    :charz ""a\\""
+: options1 , } , @rightPad(
+    ' ') asx `doc`
+, @leftPad( '0' ) uint32 charz, @tag(
+255 ) zchar[ 10 ]Pad ``
+, string  asx	`it's` , }
+packet
+// packet A { u8 x, }
+// trailing space 
+Pad {@lengthOf(lengthOf )
+@lengthOf( crc  )u8x
+    `a\` ,
+float64 f32a  @calculatedFrom(
+""a\""b""
+    ) `it's`  ,@lengthOf(	options1 ) @tag( 42 )@calculatedFrom(
+// a // b
+//x
+""1""	) zchar[ 7 ] repeatCount	`say ""hi""` , @calculatedFrom( ""// no comment"" )
+    //x
+    zchar[ 3] i8i8 @calculatedFrom(
+""// no comment"" ) `" ++ [233]%N ++ runes_of_ascii "`,@tag( //
+65535 )
+    match o
+    as float
+    { [ // @lengthOf(
+10 ]
+    :len } ,@tag(3//x
+)
+match repeatCount as Pad {
+    [ ""// no comment"",
+42 , ""\n""
+,
+    007 , 3
+    , ""// no comment""
+    // c
+    ]
+:
+    calculatedFrom}
+    , u8x
+{ repeat
+    string x `it's` ,	x @calculatedFrom( """ ++ [128512]%N ++ runes_of_ascii """
+)//
+, falsey
+    { match	f32a as// c
+u128 { [ ""it's""
+    //x
+    ,
+    0123456789
+    , 0, """ ++ [233]%N ++ runes_of_ascii "t" ++ [233]%N ++ runes_of_ascii """ ,42 , 65535 // c
+,
+1 , 255 ] :
+    uint8x ,
+0 :asx ,} , repeat packetx u `{ , }` , string Foo	, x @calculatedFrom(
+""a	b"")//	t
+,
+} , o
+    pack
+    , }  , // a // b
+} packet i64_ { repeat
+char[ 3 ]
+a1
+,} options
+    // a // b
+    {	}")).
+Eval vm_compute in ("<<<M450>>>" ++ check (runes_of_ascii "
+packet BodyLength
+{ match As as
+x
+    {	[	""a	b""
+, ""it's"" , 0	] // trailing space 
+: float , 42
+:u128 , ""a\\"":
+    BodyLength	0 :  Packet
+//	t
+//
+""\" ++ [233]%N ++ runes_of_ascii """
+:
+    // " ++ [128512]%N ++ runes_of_ascii " emoji
+    roots	""\n""	: string_ }
+    // @lengthOf(
+    , msg_type	{ char[
+4294967296 ] options1 // " ++ [27880; 37322]%N ++ runes_of_ascii "
+, } , i8i8{ i64_ { match
+    A	as zchar
+    {
+[
+65535 ,
+""" ++ [128512]%N ++ runes_of_ascii """
 // a // b
 // `tick` ""quote"" 'q'
-, // c
-char[]
-Header`" ++ [233]%N ++ runes_of_ascii "` , u32 options1 , Header i8i8
-`two words`
+, ""`tick`"" , ""x y"",""a\""b"" ,	0 , """ ++ [128512]%N ++ runes_of_ascii """ ,
+42 ] : float ""a	b""
+:	Pad 007	: repeatCount
+,// " ++ [128512]%N ++ runes_of_ascii " emoji
+}	,
+    //
+    uint64 Z9_ `" ++ [233]%N ++ runes_of_ascii "` ,crc ,} , /// triple
+repeat char[ 255 ] uint8x , uint32 pack @calculatedFrom( ""{,}""	)
     , }
-root packet Header {
-    match falsey
-as pack // packet A { u8 x, }
-{// c
-""CRC32"" :crc  ,
-    }
-    ,o rootA //	t
 ,
-match  rootA as u { [255
-,
-    ""\n"" ]
-:metadata , 42 : uint8x
-,
-[ """ ++ [128512]%N ++ runes_of_ascii """]
-    :float , // " ++ [128512]%N ++ runes_of_ascii " emoji
-""\n""	: u ,
-3: MetaDataX} ,
-    @leftPad ('\x00' )float64
-    Packet
-@calculatedFrom( ""abc""
-)	`say ""hi""` , repeat u8x	, @lengthOf(
-msg_type )  uint8x
-    // c
-    {
-packetx
-    // " ++ [128512]%N ++ runes_of_ascii " emoji
-    repeatCount
-, asx
-@calculatedFrom(
-""x y"" ) , zchar[007 /// triple
-]
-u `say ""hi""` // c
-, } , repeat i16
-calculatedFrom
-    `
-`// c
-, int16 //	t
-T// " ++ [27880; 37322]%N ++ runes_of_ascii "
-@calculatedFrom( ""a	b"" ) ,
-@rightPad ( )char[00 ]Foo
-    @lengthOf(pack )
-    `tab	here` ,
-    uint8x `" ++ [28040; 24687; 31867; 22411]%N ++ runes_of_ascii "` , } options  {x_y_z = 255; metadata
-= ""CRC32"" ; leftPad =  ""{,}"";
-    u128 = true tag
-= string;
-// " ++ [128512]%N ++ runes_of_ascii " emoji
-// a // b
-} root
-packet x_y_z { @lengthOf(  body
-    ) int32
-    // `tick` ""quote"" 'q'
-    Z9_ @calculatedFrom(
-    ""{,}""
-)`" ++ [28040; 24687; 31867; 22411]%N ++ runes_of_ascii "` // " ++ [128512]%N ++ runes_of_ascii " emoji
-,
-}
-")).
-Eval vm_compute in ("<<<M3484>>>" ++ check (runes_of_ascii "// top
-packet // c0
-A // c1
-{ // c2a
-  // c2b
-u8 a // c4
-, // c5
-}
-    // c6
-packet // c7
-B
-    // c8
-{ u16
-    // c10
-b // c11
+@calculatedFrom( ""a	b"" // `tick` ""quote"" 'q'
+)
+    tag
+@lengthOf( Packet )	`" ++ [233]%N ++ runes_of_ascii "`
+//
+// packet A { u8 x, }
 , }
-    // c13
-packet // c14a
-  // c14b
-C { // c16
-u32 // c17a
-  // c17b
-c // c18
-, // c19
-} // c20a
-  // c20b
-root packet
-    // c22
-M // c23a
-  // c23b
-{
-    // c24
-u16 Kc // c26a
-  // c26b
-, // c27a
-  // c27b
-u16
-    // c28
-Kb // c29
-,
-    // c30
-u16 // c31a
-  // c31b
-Ka // c32a
-  // c32b
-, // c33a
-  // c33b
-match Kc // c35a
-  // c35b
-as
-    // c36
-X // c37
-{ 9 // c39
-: // c40
-A // c41
-, // c42
-10 // c43
-: // c44
-B // c45
-, // c46a
-  // c46b
-} // c47a
-  // c47b
-, match // c49
-Kb
-    // c50
-as Y // c52a
-  // c52b
-{ // c53
-2 // c54a
-  // c54b
-: // c55a
-  // c55b
-C ,
-    // c57
-1
-    // c58
-: // c59a
-  // c59b
-A
-    // c60
-,
-    // c61
-}
-    // c62
-,
-    // c63
-match // c64a
-  // c64b
-Ka // c65
-as // c66a
-  // c66b
-Z { 1 // c69
-: // c70
-B , // c72
-} // c73
-, // c74a
-  // c74b
-A // c75a
-  // c75b
-, // c76
-B // c77a
-  // c77b
-, // c78
-C
-    // c79
-, }
-    // c81
-")).
-Eval vm_compute in ("<<<M4023>>>" ++ check (runes_of_ascii "options {
+root
+packet// c
+lengthOf
     // @lengthOf(
-    roots = false
-    a1 = '0';
-    leftPad = true;
+    { i32 x ,
+match i64_ as Logon
+    // trailing space 
+    {3 : rootA,[//x
+4294967296]:Packet, [ ""a	b"" ,
+    ""{,}""] :
+calculatedFrom ,[  """ ++ [28040; 24687]%N ++ runes_of_ascii """ , 0123456789 ,
+""a	b"" , 42 , 255 ,
+""\" ++ [233]%N ++ runes_of_ascii """ ]	:msg_type
+    ,  } // `tick` ""quote"" 'q'
+, @lengthOf(Header)	repeat  float {
+    string asx
+    , }  ,match	string_ // " ++ [128512]%N ++ runes_of_ascii " emoji
+as u {""" ++ [233]%N ++ runes_of_ascii "t" ++ [233]%N ++ runes_of_ascii """:  uint8x	} ,
+    } packet _x // trailing space 
+{
+char[] _x`` , }
+")).
+Eval vm_compute in ("<<<M1141>>>" ++ check (runes_of_ascii "// @lengthOf(
+packet
+// @lengthOf(
+//
+chars { repeat leftPad {
+i64_, /// triple
+}  , BodyLength{ //	t
+char[ 1] _x
+    `line1
+line2`
+    , }
+    ,@calculatedFrom( """ ++ [233]%N ++ runes_of_ascii "t" ++ [233]%N ++ runes_of_ascii """
+) repeat
+    zchar body , char[ 65535	] Foo ,repeat
+    zchar[ 7	] repeatCount , @lengthOf( Logon
+)@calculatedFrom(	""{,}""
+/// triple
+// `tick` ""quote"" 'q'
+)//
+string//x
+float,
+u8x,
+    uint8x
+@calculatedFrom( ""packet"") , } //x
+MetaData T { u16 zchar // " ++ [128512]%N ++ runes_of_ascii " emoji
+`tab	here`
+,float64 x
+,// packet A { u8 x, }
+i32 Packet `` , // `tick` ""quote"" 'q'
+zchar[
+255
+//
+/// triple
+] crc
     // a // b
-    // " ++ [27880; 37322]%N ++ runes_of_ascii "
-    Logon = ""a	b""
+    , calculatedFrom
+u128 ,
+zchar[ 1
+/// triple
+// a // b
+]
+metadata `
+`
+,
+} packet uint8x	{
+Header{uint16  metadata @lengthOf(
+MetaDataX
+    ) `line1
+line2` , } //x
+,
+// " ++ [27880; 37322]%N ++ runes_of_ascii "
+// @lengthOf(
+metadata  repeatCount , repeat x_y_z , chars
+A
+, packetx@calculatedFrom(
+    // a // b
+    ""a\\""	) `` ,
+    char[ 007] a1 @lengthOf( A  ) `" ++ [28040; 24687; 31867; 22411]%N ++ runes_of_ascii "`, /// triple
+} options {
+    matchKey = float32 ;	}
+packet
+    f32a
+{ @lengthOf( repeatCount )// @lengthOf(
+@tag( 42 )// `tick` ""quote"" 'q'
+float32 u128 ,  }
+")).
+Eval vm_compute in ("<<<M248>>>" ++ check (runes_of_ascii "packet
+Packet
+    {
+} packet repeatCount{@tag(	4294967296
+    ) @lengthOf(A  ) @lengthOf( float ) rootA ,
+@tag(0123456789  )
+Header
+    `// not a comment`,  matchKey
+    f32a
+    , Pad, repeat float32	uint8x
+    `" ++ [233]%N ++ runes_of_ascii "` ,@leftPad
+    ('\x00' )	repeat
+    char[3]
+tag `
+`, repeat
+pack {
+repeat x { repeat f64 len ,
+    i64_ len, }
+    ,
+repeatCount
+    // `tick` ""quote"" 'q'
+    @lengthOf(uint8x
+    ) , match	zchar  as a1 {
+// a // b
+// packet A { u8 x, }
+3: u ,
+},// packet A { u8 x, }
+repeat rootA
+{ options1 {
+repeat body u8x `crlf
+line`	, match Z9_ as
+    f32a{007
+:repeatCount ,
+    ""packet""
+: calculatedFrom
+    ,
+    // " ++ [128512]%N ++ runes_of_ascii " emoji
+    10 // `tick` ""quote"" 'q'
+: /// triple
+calculatedFrom
+    ,
+""CRC32""  :	_x , [	""x y""	] : i64_ , ""packet""
+// `tick` ""quote"" 'q'
+// a // b
+:// `tick` ""quote"" 'q'
+MetaDataX
+    ,  }
+// a // b
+// " ++ [27880; 37322]%N ++ runes_of_ascii "
+, } ,
+    //x
+    } , } ,  } MetaData// @lengthOf(
+asx {	u trueish ,chars // c
+f32a `// not a comment`	, float64 u128 , string_ string_ `
+` , }packet crc
+{ }")).
+Eval vm_compute in ("<<<M3896>>>" ++ check (runes_of_ascii "packet As {
+    @lengthOf(u8x)
+    repeat u32 T,
+    string Foo @calculatedFrom(""it's"") `doc`,
+    @tag(00)
+    //
+    @tag(42)
+    repeatCount {
+        packetx {
+            repeat f64 x_y_z `doc`,
+            repeat char[65535] crc,
+        },
+        u16 A,
+        o @lengthOf(MetaDataX) `// not a comment`,
+        repeat string BodyLength `
+                `,
+    },
+    repeatCount @lengthOf(chars),
+    match uint8x as As {
+        007 : Packet,
+        """" : Header,
+        3 : zchar,
+        7 : u128,
+        [4294967296, ""x y""] : crc,
+        [""1"", 00] : int,
+    },
+    @lengthOf(Foo)
+    repeat u {
+        string float,
+        string matchKey @calculatedFrom(""it's"") `it's`,
+        repeat Packet repeatCount,
+    },
+    @lengthOf(T)
+    A @lengthOf(rootA) ``,
+    repeatCount @calculatedFrom(""packet""),
+    char[] x @calculatedFrom(""abc"") `crlf
+        line`,
 }
 
-root packet metadata {
-    tag @lengthOf(string_) `it's`,
-    @leftPad(' ')
-    @lengthOf(trueish)
-    @lengthOf(A)
-    int64 Packet @calculatedFrom("""") `
-        `,
-    u f32a ``,
-    @calculatedFrom(""abc"")
-    @tag(255)
-    char[] Logon @calculatedFrom(""\" ++ [233]%N ++ runes_of_ascii """),// trailing space 
-    repeat char[7] a1,
-    char[] pack `u8 x,`,
-    repeat calculatedFrom `tab	here`,
-    @tag(1)
-    u32 options1,
+packet i8i8 {
 }
 
 options {
-    i8i8 = 4294967296
-}
-
-packet roots {
-    repeat charz x_y_z,
-}
-
-packet msg_type {
-    @lengthOf(tag)
-    i32 Pad `" ++ [28040; 24687; 31867; 22411]%N ++ runes_of_ascii "`,
-    i64 a1,
-    metadata {
-        repeat int8 float,// `tick` ""quote"" 'q'
-        Pad _x,
-        f32 pack,
-    },
-    i8 repeatCount,
-    char matchKey,
-    repeat trueish `u8 x,`,
-    o leftPad,
-    char[] pack `it's`,// c
-    As {
-        uint32 rootA @calculatedFrom(""it's"") `
-                `,
-    },
+    MetaDataX = true;//x
+    charz = true;
 }")).
-Eval vm_compute in ("<<<M4059>>>" ++ check (runes_of_ascii "packet _x {
-    repeat o int,
-    match int as Logon {
-        ""packet"" : string_,
+Eval vm_compute in ("<<<M3933>>>" ++ check (runes_of_ascii "
+root	packet
+
+As
+{@tag(
+    4294967296
+)packetx // packet A { u8 x, }
+  	,
+@calculatedFrom(
+""" ++ [128512]%N ++ runes_of_ascii """
+    )i32
+
+crc // " ++ [128512]%N ++ runes_of_ascii " emoji
+
+  ,
+	@lengthOf(x_y_z )
+	@lengthOf( 
+  // a // b
+	body 
+      // a // b
+  // c
+  	)BodyLength {	match
+
+    repeatCount	as 
+int	{ 
+""\" ++ [233]%N ++ runes_of_ascii """ :body
+	,// packet A { u8 x, }
+    ""// no comment""
+
+: 
+falsey ,""abc"" 
+: 
+tag
+""a	b""	:  zchar
+    , 
+	    // trailing space 
+  007 :
+Packet
+,
+}  ,	// " ++ [128512]%N ++ runes_of_ascii " emoji
     },
-    @leftPad('0')
-    zchar[1] asx,
-}// @lengthOf(
 
-packet leftPad {
+    repeat falsey trueish ,  @leftPad
+(  ' '	)@lengthOf( 	 // packet A { u8 x, }
+    Logon )
+	@leftPad
+    (  )
+
+int  @lengthOf( u8x
+	), zchar[
+
+// " ++ [27880; 37322]%N ++ runes_of_ascii "
+  // packet A { u8 x, }
+007 ]
+
+falsey
+	,
+@rightPad
+(
+) 
+float
+@lengthOf(
+	Logon
+
+) , @rightPad	(
+'\x00' )
+	@calculatedFrom( /// triple
+
+	""a	b"")
+
+    Z9_ u8x ,
+@tag( 3 )string_ u128 , 
+}options 
+{	u128  = ""it's"" ;
+metadata
+
+    =
+""abc""string_
+	= true
+
+    ;
+    f32a 
+=// c
+  true
+
+    }packet
+i8i8 {
+
+}")).
+Eval vm_compute in ("<<<M1107>>>" ++ check (runes_of_ascii "packet falsey
+{
+    // trailing space 
+    @lengthOf(
+_x
+    // @lengthOf(
+    ) @calculatedFrom(
+// packet A { u8 x, }
+//
+""`tick`"" )
+    repeat body
+    //
+    ,
+    i64 packetx , repeat u64 chars
+    // " ++ [128512]%N ++ runes_of_ascii " emoji
+    ,@leftPad
+(// packet A { u8 x, }
+) @calculatedFrom( ""a\""b"")	BodyLength {
+rootA
+    pack
+//
+/// triple
+,//x
+char[1 ]
+uint8x`u8 x,`
+, match Packet
+as
+roots {  ""a	b"" : crc
+    ,}	,  } , int32 MetaDataX , @calculatedFrom(
+    ""// no comment""
+)
+    x
+Z9_ `
+` , }packet
+falsey  {}
+    options
+{ options1 = '\x00'
+;Foo
+//
+// `tick` ""quote"" 'q'
+=false
+; lengthOf
+= """ ++ [28040; 24687]%N ++ runes_of_ascii """A  =
+//	t
+// " ++ [128512]%N ++ runes_of_ascii " emoji
+255
+    ; repeatCount  =
+    """ ++ [233]%N ++ runes_of_ascii "t" ++ [233]%N ++ runes_of_ascii """
+} packet body {
+// `tick` ""quote"" 'q'
+// " ++ [27880; 37322]%N ++ runes_of_ascii "
+@rightPad ( ) repeat u `it's` , char[ 255 //	t
+] charz @lengthOf(
+    x )
+,
+    //
+    zchar[ 3
+]
+chars , zchar@calculatedFrom(
+""`tick`""// `tick` ""quote"" 'q'
+) , }
+")).
+Eval vm_compute in ("<<<M453>>>" ++ check (runes_of_ascii "packet chars{ }	options
+// a // b
+// packet A { u8 x, }
+{	calculatedFrom
+=i8;}
+packet x { @tag( 255
+    ) // `tick` ""quote"" 'q'
+match u8x as leftPad { [
+1 ,
+    ""\n"",""a\""b""]
+    : stringy } ,
+float @calculatedFrom(
+    ""\n"" )
+`
+`
+    ,
+@calculatedFrom( // @lengthOf(
+""{,}""
+) repeat char[ 0123456789
+] Header
+    , body {
+f32a
+    `" ++ [28040; 24687; 31867; 22411]%N ++ runes_of_ascii "`
+, char[
+10 ] Pad
+@lengthOf( packetx )`line1
+line2`
+    , match Header as crc {[ 7] : roots
+,4294967296 : Header , 255:
+    // " ++ [27880; 37322]%N ++ runes_of_ascii "
+    crc,	00
+:
+    Z9_ ,255 :Z9_ ,
+[
+    42 ,
+    255
+    ] : repeatCount
+,	} , leftPad { repeat
+asx  `" ++ [28040; 24687; 31867; 22411]%N ++ runes_of_ascii "` // " ++ [27880; 37322]%N ++ runes_of_ascii "
+, float
+, }, }
+    , @leftPad // a // b
+(
+) @lengthOf(Foo  )@calculatedFrom(  ""abc"" ) uint64 BodyLength , @tag( // " ++ [128512]%N ++ runes_of_ascii " emoji
+65535 ) i64 u8x`it's`
+,	@tag( 0 )/// triple
+crc { zchar[65535 ]u `tab	here` ,	} ,// a // b
 }
-
-root packet i8i8 {
-    @calculatedFrom(""it's"")
-    _x len `crlf
+")).
+Eval vm_compute in ("<<<M5>>>" ++ check (runes_of_ascii "root packet // a // b
+chars{
+    u32
+u8x `it's`
+    , A o
+,
+Packet {u/// triple
+`doc` , repeat
+// @lengthOf(
+// " ++ [128512]%N ++ runes_of_ascii " emoji
+Header
+    u8x  ,
+i8i8
+As , } , @calculatedFrom(
+// `tick` ""quote"" 'q'
+// trailing space 
+""a\\"" ) charz
+    { //x
+char[]a1 , //
+string Pad , x repeatCount
+, metadata {
+chars{ body`a\`  , match
+    trueish as lengthOf
+    { 0:u8x
+    , } , match packetx as	string_  {0123456789
+:BodyLength , } , } ,
+repeat calculatedFrom
+    roots
+    ,
+repeat
+Packet
+    ,int32 Logon, }
+    ,// c
+}, repeatCount,
+    @lengthOf( float) match trueish as Header { [ ""{,}"" , ""1""
+]
+    : // " ++ [27880; 37322]%N ++ runes_of_ascii "
+f32a ,} ,	i16 chars
+    , match As  as Pad { 3: f32a , [ 4294967296
+    ] : body,[	""{,}""
+]
+: u8x // `tick` ""quote"" 'q'
+, ""a	b"" :
+    Z9_,
+    // packet A { u8 x, }
+    } ,// " ++ [27880; 37322]%N ++ runes_of_ascii "
+} //x")).
+Eval vm_compute in ("<<<M573>>>" ++ check (runes_of_ascii "packet pack
+    // `tick` ""quote"" 'q'
+    {@lengthOf(
+charz ) repeat
+int64 x_y_z  , @calculatedFrom(  ""abc"" )Z9_ //	t
+{ options1@lengthOf( i64_ ) , string stringy `tab	here` , } , @rightPad ( ) chars	uint8x
+`" ++ [233]%N ++ runes_of_ascii "` ,@tag(1)match
+asx as string_{	00	:
+    Header, [
+// c
+// c
+42, 1 ,
+    ""\" ++ [233]%N ++ runes_of_ascii """ , """ ++ [233]%N ++ runes_of_ascii "t" ++ [233]%N ++ runes_of_ascii """ , 255,
+    """ ++ [128512]%N ++ runes_of_ascii """
+    // " ++ [27880; 37322]%N ++ runes_of_ascii "
+    ] : chars , // trailing space 
+""" ++ [28040; 24687]%N ++ runes_of_ascii """
+:rootA	[ 0123456789 , 4294967296 ,
+""x y""
+,
+7 ,""\" ++ [233]%N ++ runes_of_ascii """ , 10
+    ,""{,}""
+    ,
+1
+    //
+    ] :lengthOf ,	} ,
+@calculatedFrom(
+    ""packet"" )zchar[
+65535	]Foo
+`two words`,repeat// " ++ [128512]%N ++ runes_of_ascii " emoji
+zchar[// " ++ [128512]%N ++ runes_of_ascii " emoji
+255
+    ] msg_type
+    ,
+@lengthOf(
+rootA) char x // a // b
+@lengthOf( x_y_z )
+, @tag(	255
+) @calculatedFrom( ""{,}""
+) int64 Packet
+// @lengthOf(
+// trailing space 
+`
+` ,
+Foo  , }")).
+Eval vm_compute in ("<<<M962>>>" ++ check (runes_of_ascii "  MetaData
+stringy{ Packet
+    falsey `" ++ [28040; 24687; 31867; 22411]%N ++ runes_of_ascii "`
+, }
+packet Foo
+{@lengthOf(i8i8 ) zchar[ 10 ]
+    chars // a // b
+`{ , }`,	@calculatedFrom( ""1"") char[ 007 // " ++ [27880; 37322]%N ++ runes_of_ascii "
+] x ,@lengthOf(  int
+    )  zchar[10] string_ `two words` , repeat repeatCount { u32
+len // c
+, T
+rootA , char[ 7 ] falsey @lengthOf( crc ),
+// " ++ [128512]%N ++ runes_of_ascii " emoji
+// packet A { u8 x, }
+int16// `tick` ""quote"" 'q'
+BodyLength
+    // a // b
+    , } ,packetx @lengthOf(	u
+// c
+// @lengthOf(
+) ,zchar[
+3 ] chars // c
+, float32
+x_y_z `{ , }` ,@calculatedFrom( ""1"")
+    uint16 trueish@calculatedFrom(""" ++ [128512]%N ++ runes_of_ascii """)
+    `line1
+line2`,
+Z9_ chars	, }root packet crc {	char[]	T ,	}
+MetaData len  { uint16
+uint8x , f64 string_`" ++ [28040; 24687; 31867; 22411]%N ++ runes_of_ascii "` ,
+char[]
+i8i8`// not a comment`
+    ,}")).
+Eval vm_compute in ("<<<M4192>>>" ++ check (runes_of_ascii "packet u {
+    uint64 u8x,
+    @leftPad('0')
+    u16 uint8x @lengthOf(T),
+    @lengthOf(lengthOf)
+    @lengthOf(msg_type)
+    u16 tag @calculatedFrom(""a\""b"") `crlf
     line`,
 }
 
-root packet rootA {
-    char[] rootA @lengthOf(leftPad) `u8 x,`,
-    match falsey as calculatedFrom {
-        42 : Foo,
-    },
-    repeat Z9_ {
-        uint16 _x `doc`,
-        zchar[42] u8x,
-        repeat zchar[42] Z9_ `// not a comment`,
-    },
-    string T,
-    u8x i8i8,
-    @calculatedFrom(""CRC32"")
-    u64 zchar,
+packet As {
+    @calculatedFrom(""a\\"")
+    u128 {
+        int16 string_ @lengthOf(Header),
+        repeat i64_ `{ , }`,
+    },/// triple
 }
 
-packet Packet {
-    repeat Z9_ int,
-    int16 asx `// not a comment`,
-    @lengthOf(options1)
-    repeat int8 As `" ++ [233]%N ++ runes_of_ascii "`,
-    @leftPad('\x00')
-    o {
-        repeat rootA `crlf
-        line`,
-        Packet,
-    },
+root packet roots {
     @calculatedFrom(""`tick`"")
-    @lengthOf(T)
-    //	t
-    repeatCount _x,
-    _x {
-        i16 x_y_z @lengthOf(a1) `
-        `,
-    },
-}")).
-Eval vm_compute in ("<<<M149>>>" ++ check (runes_of_ascii "MetaData As{
-    u//
-matchKey	, char[] T	, char[] Foo// @lengthOf(
-`{ , }`,
-    }root
-packet
-    T { @lengthOf(
-tag ) @tag( 0123456789 ) match repeatCount as
-    BodyLength { """ ++ [233]%N ++ runes_of_ascii "t" ++ [233]%N ++ runes_of_ascii """  :o ,
-65535 : float,
-    ""a	b""	: _x , [ ""x y"" , 65535
-// packet A { u8 x, }
-//x
-] : string_ ,}
-,}
-    root packet
-_x { match msg_type
-    // trailing space 
-    as
-    f32a {""\" ++ [233]%N ++ runes_of_ascii """ : Header 3	:
-repeatCount [7, ""a	b"" ] :
-_x
-, ""it's"":
-stringy 10
-:
-//	t
-/// triple
-As ,""it's"" :lengthOf }
-, @calculatedFrom(""packet"" ) int64// `tick` ""quote"" 'q'
-falsey ,	@leftPad// packet A { u8 x, }
-( )
-//	t
-//
-char[ 1 ]len// @lengthOf(
-@lengthOf( Foo ) ,	chars
-T ,
-    zchar[
-007	]	options1
-,
-match f32a as
-asx
-{[ ""1"" ] :matchKey, """ ++ [28040; 24687]%N ++ runes_of_ascii """: As ,
-    // c
-    4294967296 : options1 ,
-}
-    , }	MetaData o
-    {	zchar[ 42] repeatCount ,packetx falsey,Packet options1
-`{ , }` ,} options { falsey = ""a\\""	} // " ++ [128512]%N ++ runes_of_ascii " emoji")).
-Eval vm_compute in ("<<<M438>>>" ++ check (runes_of_ascii "root packet len { tag	repeatCount , crc
-{
-    As { T zchar , _x `line1
-line2` , f64 x_y_z ,
-    match packetx  as
-    calculatedFrom
-{ [
-""// no comment"" ,  ""packet"" ]:
-    charz , }// a // b
-, }
-    ,
-} // " ++ [27880; 37322]%N ++ runes_of_ascii "
-,
-zchar[7
-] i64_ `
-`  ,
-// " ++ [128512]%N ++ runes_of_ascii " emoji
-// c
-@calculatedFrom(
-""{,}"" )stringy
-@calculatedFrom( """ ++ [233]%N ++ runes_of_ascii "t" ++ [233]%N ++ runes_of_ascii """ ),match metadata as Z9_
-{ ""a\\"" :
-Logon 7 : Pad ,
-    3
-    :
-    // a // b
-    Foo , [
-    10
-] :
-msg_type ,
-//	t
-// `tick` ""quote"" 'q'
-""\n"" : x
-}, match trueish as pack{ [
-    // trailing space 
-    ""a	b""
-    , 4294967296
-    ,
-""" ++ [233]%N ++ runes_of_ascii "t" ++ [233]%N ++ runes_of_ascii """ , 42, ""{,}""
-// " ++ [27880; 37322]%N ++ runes_of_ascii "
-// c
-, 7	,	255 ] : Logon , // `tick` ""quote"" 'q'
-[
-    ""{,}""
-    ,
-42	,
-00 ] :
-    /// triple
-    crc, 42 : A
-    ,
-""" ++ [28040; 24687]%N ++ runes_of_ascii """ : asx	,[ """ ++ [128512]%N ++ runes_of_ascii """ ,65535	,
-    ""`tick`"" ,
-7 , ""x y"" , ""CRC32""
-    // " ++ [27880; 37322]%N ++ runes_of_ascii "
-    ,
-""" ++ [28040; 24687]%N ++ runes_of_ascii """ //
-]
-// `tick` ""quote"" 'q'
-// @lengthOf(
-: BodyLength ,
-} , }")).
-Eval vm_compute in ("<<<M468>>>" ++ check (runes_of_ascii "root packet //
-len{
-    char[ 1]As , i64 T	@lengthOf( u8x
-)	`u8 x,` , repeat int16
-/// triple
-// " ++ [128512]%N ++ runes_of_ascii " emoji
-i8i8`" ++ [233]%N ++ runes_of_ascii "` , @tag( 42 ) match chars as calculatedFrom
-    {[ ""a\\"", 0
-] : // " ++ [27880; 37322]%N ++ runes_of_ascii "
-trueish
-3
-    : BodyLength
-    ""{,}"" : len } , // a // b
-repeat zchar[
-4294967296 ]
-A
-    ``, repeat char uint8x  `it's`
-,}packet// " ++ [27880; 37322]%N ++ runes_of_ascii "
-x_y_z {	@lengthOf(matchKey ) @tag(
-    3
-    )@calculatedFrom( ""\" ++ [233]%N ++ runes_of_ascii """  )
-    string
-    lengthOf@calculatedFrom(
-""" ++ [233]%N ++ runes_of_ascii "t" ++ [233]%N ++ runes_of_ascii """ ) , } root
-packet //
-int
-// trailing space 
-// packet A { u8 x, }
-{ repeat BodyLength { match Pad as chars {[ ""`tick`""]
-:
-    // a // b
-    zchar,[ """ ++ [28040; 24687]%N ++ runes_of_ascii """ , ""CRC32"" ,""// no comment""] : repeatCount
-,  1 :metadata
-, 3 : As , 3 : lengthOf } ,
-u32 A // " ++ [27880; 37322]%N ++ runes_of_ascii "
-`// not a comment` ,
-//x
-//x
-f64 stringy @lengthOf( As )`" ++ [233]%N ++ runes_of_ascii "`
-    , o
-,
-}
-, }
-    packet
-zchar {}
-// c
-")).
-Eval vm_compute in ("<<<M171>>>" ++ check (runes_of_ascii "root  packet body { /// triple
-crc
-x_y_z `say ""hi""` , float// `tick` ""quote"" 'q'
-_x , T// " ++ [128512]%N ++ runes_of_ascii " emoji
-`a\`
-    // " ++ [27880; 37322]%N ++ runes_of_ascii "
-    , uint64 MetaDataX , repeat zchar[ 7 ]
-    calculatedFrom `` , uint32 len
-// c
-// @lengthOf(
-`a\` , } /// triple
-options{
-} packet	a1{ @tag( 1 )Logon @lengthOf(	options1) `{ , }` , @calculatedFrom( ""abc"")
-    /// triple
-    f32a // " ++ [27880; 37322]%N ++ runes_of_ascii "
-{leftPad { // trailing space 
-o matchKey
-``  , }
-, int32 int
-// c
-// @lengthOf(
-``
-, char[ 007 ]
-    zchar
-@lengthOf( Z9_ ) `tab	here`
-    , char[ 1 ] falsey ,  } ,
-    repeat int16 Z9_ , match	zchar as zchar{ ""packet"" :	x_y_z	,
-[3
-    // " ++ [128512]%N ++ runes_of_ascii " emoji
-    , ""CRC32"", 0,""CRC32""//
-, 0123456789 ]
-: len
-, [0 ,	4294967296
-] :
-Packet
-, [65535
-] : options1 [ 10]//	t
-: u128 , } , // packet A { u8 x, }
-}
-")).
-Eval vm_compute in ("<<<M97>>>" ++ check (runes_of_ascii "options
-// trailing space 
-// " ++ [27880; 37322]%N ++ runes_of_ascii "
-{Foo=
-""it's"" lengthOf = int8 falsey /// triple
-= 7 ;a1
-= false
-; } MetaData repeatCount
-//x
-//x
-{ T
-    repeatCount,
-    u8x msg_type `// not a comment`
-    ,
-    repeatCount T	, } packet repeatCount{  @tag( 007 ) i64_ As	,
-}
-root packet	packetx{
-    string
-//	t
-// " ++ [128512]%N ++ runes_of_ascii " emoji
-T @calculatedFrom(""{,}""//
-)
-    , repeat zchar[
-    4294967296
-    ] x  , @tag(
-42 ) @lengthOf( lengthOf
-)/// triple
-@calculatedFrom( ""`tick`""	)repeat u16 u128 `say ""hi""` // trailing space 
-, // trailing space 
-@rightPad ( ) @tag( 255 )
-repeat uint8x Logon
-    // packet A { u8 x, }
-    ,
-    repeat zchar[ 007 ]Logon`a\`
-    ,@rightPad(
-    // `tick` ""quote"" 'q'
-    '0' ) // @lengthOf(
-string
-falsey ,
-}
-")).
-Eval vm_compute in ("<<<M4403>>>" ++ check (runes_of_ascii "packet f32a {
-    @leftPad()
-    i32 repeatCount @calculatedFrom(""`tick`"") `two words`,
-    repeat i32 int,
-    char[00] Header,
-    repeat zchar[10] a1,
-    string_ @calculatedFrom(""// no comment""),
-    @leftPad()
-    @tag(00)
-    @lengthOf(string_)
-    repeat zchar[3] x_y_z,
-    repeat uint16 rootA `line1
-    line2`,
-    u8 roots @lengthOf(tag),
-    T @lengthOf(A) `// not a comment`,// a // b
+    i32 Header `" ++ [233]%N ++ runes_of_ascii "`,
+    int8 T,
+    @rightPad(' ')
+    u32 charz `doc`,
+    char[65535] f32a,
+    metadata,
 }
 
-MetaData rootA {
-    pack calculatedFrom,
-    trueish packetx ``,
-    Packet msg_type `it's`,
-    u64 repeatCount,
-    uint8 Z9_ `" ++ [28040; 24687; 31867; 22411]%N ++ runes_of_ascii "`,
+MetaData T {
+    u8x roots `it's`,
+    options1 MetaDataX,
+    int32 f32a,
 }
 
 options {
-    chars = u8
-    falsey = '\x00'
-    MetaDataX = char[];
+    // trailing space 
+    f32a = '0'
+    Pad = 0123456789;
     repeatCount = char[]
-}
-
-MetaData string_ {
-    string chars,
+    x_y_z = '\x00'
 }")).
-Eval vm_compute in ("<<<M523>>>" ++ check (runes_of_ascii "packet zchar{
-    i32 zchar @calculatedFrom( ""abc"") `a\` // c
-,Pad Logon `tab	here`
-// c
-// a // b
-,
-// a // b
-/// triple
-@tag(
-    /// triple
-    0 ) Packet{
-x_y_z
-matchKey,
-float64 Logon
-@lengthOf( uint8x ) , } // c
-,
-packetx i64_ `" ++ [28040; 24687; 31867; 22411]%N ++ runes_of_ascii "` ,
-    repeat char[] As	`two words`, } MetaData packetx{ options1 Z9_
-`crlf
-line` , char[] pack
+Eval vm_compute in ("<<<M3828>>>" ++ check (runes_of_ascii "root packet falsey {
+    @tag(0123456789)
+    @tag(3)
+    Pad {
+        rootA,
+        //x
+        // a // b
+        x {
+            repeat int {
+                // " ++ [128512]%N ++ runes_of_ascii " emoji
+                // @lengthOf(
+                match f32a as crc {
+                    [""" ++ [128512]%N ++ runes_of_ascii """, ""packet""] : metadata,
+                    //	t
+                    [42, ""abc"", 00, ""a\\""] : metadata,
+                    [""a\""b""] : Header,
+                    ""\n"" : asx,
+                },
+            },
+            x_y_z @calculatedFrom(""1""),
+            zchar[42] string_ ``,
+            matchKey pack,
+        },
+    },
+    @lengthOf(Logon)
+    @leftPad('\x00')
+    As u8x,
+}")).
+Eval vm_compute in ("<<<M789>>>" ++ check (runes_of_ascii "packet roots { //	t
+@calculatedFrom( ""packet"" )
+f32 roots
+    @lengthOf( // " ++ [27880; 37322]%N ++ runes_of_ascii "
+options1 ) `tab	here`,	@lengthOf( Foo )
+    match BodyLength
+    as u128
 //
 // `tick` ""quote"" 'q'
-,	string
-charz
-    `// not a comment`,
-    /// triple
-    char[]
-string_
-, // a // b
-asx int //	t
-`u8 x,` ,	} options
-{
-rootA =""a\\""
-leftPad = ' ' ;
-    leftPad= '\x00' ; }MetaData i8i8 { charz // trailing space 
-zchar , string
-    chars // c
-, int8 repeatCount`it's` , }
-")).
-Eval vm_compute in ("<<<M1154>>>" ++ check (runes_of_ascii "// " ++ [27880; 37322]%N ++ runes_of_ascii "
-packet
-leftPad { // a // b
-string As `{ , }`, char[
-42 ] msg_type , @lengthOf( i8i8 ) match
-Foo as matchKey //	t
-{
-1  :chars ,
-65535 : o 7 :
-    calculatedFrom , [65535,  7 , ""a	b""
-    ] :int
-, [
-00 ,
-0 , ""x y"" ,
-    65535//	t
-, """ ++ [128512]%N ++ runes_of_ascii """  ,007,
-""it's"",
-    """" ]
-    :
-Packet
-, """" :	float ,}	,
-u64 Logon
-@calculatedFrom( """ ++ [128512]%N ++ runes_of_ascii """), @calculatedFrom(
-""a	b"" ) pack {float32 charz
-    `line1
-line2` // `tick` ""quote"" 'q'
-, } ,
-} MetaData u128
-    {	repeatCount
-    len
-`" ++ [233]%N ++ runes_of_ascii "`
-, BodyLength//x
-charz
-, u8x trueish  `a\` ,Header msg_type
-`line1
-line2` ,
-    string  stringy , // " ++ [128512]%N ++ runes_of_ascii " emoji
-char[] u128
-    `" ++ [233]%N ++ runes_of_ascii "`, }options { }")).
+{""" ++ [233]%N ++ runes_of_ascii "t" ++ [233]%N ++ runes_of_ascii """
+:x_y_z
+, 1
+:leftPad /// triple
+,
+[ ""packet"" ] :	crc 007 : uint8x [ ""\n"" , 00
+,
+// @lengthOf(
+// " ++ [128512]%N ++ runes_of_ascii " emoji
+10
+    // `tick` ""quote"" 'q'
+    , // @lengthOf(
+65535 ,
+    42 ,""a\\"" ,00 ]	:
+leftPad ,
+    }	,
+} options { f32a = 4294967296
+;
+// " ++ [27880; 37322]%N ++ runes_of_ascii "
+//	t
+Header	= '0'	} // @lengthOf(
+options { Logon= zchar[ 255] ; // `tick` ""quote"" 'q'
+metadata =
+""it's""; leftPad
+// trailing space 
+// a // b
+=
+""CRC32""// `tick` ""quote"" 'q'
+;
+Pad =
+""""
+; }")).
 Eval vm_compute in ("<<<M1026>>>" ++ check (runes_of_ascii "options // c
 {
 msg_type =//	t
@@ -1327,1220 +1387,1167 @@ repeat
 `
 ` , }
 ")).
-Eval vm_compute in ("<<<M1266>>>" ++ check (runes_of_ascii "packet matchKey { @rightPad ( ' ' )
-    @tag( 65535 ) _x @lengthOf( options1 )
-`" ++ [28040; 24687; 31867; 22411]%N ++ runes_of_ascii "`,
-@lengthOf( o ) tag /// triple
-Logon ,
-}
-packet
-pack // @lengthOf(
-{ @tag(
-7 ) zchar[ 0
-] u @calculatedFrom( ""\n"" )
-    `a\` ,repeat stringy ,repeat i8i8 a1 ,char[ 0 ] pack @calculatedFrom(
-""\n"" )`line1
-line2` , }packet u128{
-@lengthOf(
-metadata)
-int8 Foo
-`
-` , @leftPad( '\x00') zchar , len // c
-Header ,  repeat
-    chars
-``,
-f64 trueish@calculatedFrom( ""`tick`"")
-    // " ++ [27880; 37322]%N ++ runes_of_ascii "
-    , @lengthOf(
-matchKey// @lengthOf(
-) uint32 i8i8
-, asx int `a\`, }
-")).
-Eval vm_compute in ("<<<M1147>>>" ++ check (runes_of_ascii "root
-    // trailing space 
-    packet
-    a1 { int16
-u8x , match
-    pack as i8i8{ ""packet""
-    :
-i64_ [ 1,
-    //
-    7 // @lengthOf(
-,007	, 0123456789 , """ ++ [233]%N ++ runes_of_ascii "t" ++ [233]%N ++ runes_of_ascii """
-    , 0 ] :
-chars
-    , [
-    7 ,
-""a\\"" , ""a\""b"", 007  , 0	,""// no comment"" ] : A	,}  ,
-int64 metadata , @lengthOf(roots )len ,repeat
-    //
-    As// trailing space 
-`it's`  , //	t
-repeat calculatedFrom
-    {repeat
-//x
-// " ++ [27880; 37322]%N ++ runes_of_ascii "
-options1 stringy , calculatedFrom matchKey
-    `" ++ [28040; 24687; 31867; 22411]%N ++ runes_of_ascii "` , float32
-options1 @lengthOf( // trailing space 
-float
-)
-    , } , } 	 ")).
-Eval vm_compute in ("<<<M740>>>" ++ check (runes_of_ascii "packet chars {
-// `tick` ""quote"" 'q'
-// `tick` ""quote"" 'q'
-@lengthOf(trueish ) char[10 ] metadata
-//	t
-// packet A { u8 x, }
-@calculatedFrom(""x y"" )
-    , MetaDataX @lengthOf(
-BodyLength)
-`u8 x,` ,match
-    x
-    // trailing space 
-    as trueish { 7 /// triple
-: matchKey , }
-    , }root packet	len { // packet A { u8 x, }
-x@lengthOf(Pad // `tick` ""quote"" 'q'
-),
-    asx { pack
-_x , } ,} MetaData // `tick` ""quote"" 'q'
-pack
-    {
-int8 //x
-zchar
-    // @lengthOf(
-    `tab	here`
-,}
-")).
-Eval vm_compute in ("<<<M188>>>" ++ check (runes_of_ascii "packet asx{
-@lengthOf(	falsey
-    //	t
-    ) repeat uint64 charz , repeat // " ++ [128512]%N ++ runes_of_ascii " emoji
-char[] As `it's`
-, }packet
-u8x { @tag(
-    4294967296
-    )
-@calculatedFrom(
-""`tick`""
-) @calculatedFrom(""abc"" ) repeat // @lengthOf(
-i64 options1 `it's`, match Logon as o {  3 :Z9_ 3:T , 3// c
-:// @lengthOf(
-u128,4294967296: Z9_ , [""""
-,
-10
-    ] : body ,
-    // c
-    """ ++ [233]%N ++ runes_of_ascii "t" ++ [233]%N ++ runes_of_ascii """ : string_
-//
-/// triple
-, } , @tag( 7 )
-uint8x
-    @lengthOf(
-    //
-    Foo ), repeat T _x//
-`" ++ [233]%N ++ runes_of_ascii "`
-, }")).
-Eval vm_compute in ("<<<M3873>>>" ++ check (runes_of_ascii "
-
-  options
-{ LittleEndian  =
-
-false
-    ;
-StringPrefixLenType =
-	u32 ; ArrayPrefixLenType
-
-    =
-u16;
-
-    }
-	packet
-
-    Party
-	{
-    @leftPad
-    (
-'0'
-)
-char[  12
-]
-
-    Ref ,	repeat
-    char[ 
-6
-	] x
-    , 
-}
-packet
-Logon
-	{
-uint32  clOrdID
-
-,Party
-    , }
-root
-packet Ack
+Eval vm_compute in ("<<<M1143>>>" ++ check (runes_of_ascii "// " ++ [128512]%N ++ runes_of_ascii " emoji
+packet _x	{
+    }  packet Logon{  repeat
+int64 uint8x ,
+    roots
+{zchar[65535 ]
+float // @lengthOf(
+,i64 MetaDataX
+    , int32 charz , uint32 _x `" ++ [28040; 24687; 31867; 22411]%N ++ runes_of_ascii "` , } ,//x
+string tag
+    @calculatedFrom( ""\" ++ [233]%N ++ runes_of_ascii """ )  ,	repeat char BodyLength , }	packet	zchar
 {
-zchar[  2 ] 
-f1 ,
-
-    u32
-	seqNo
-,u32
-
-    Side2
-@lengthOf(
-
-Body
-
-) 
+@calculatedFrom( ""x y"" ) @tag(1	)
+zchar[
+    1	] u ,pack {zchar[ 3 ] packetx @lengthOf(Foo )  ,} , match
+roots as A  {
+    42
+:f32a ,}
 ,
-	match seqNo
-
-as
-
-    Body {
-    43 : Logon , 93:	Party
-
-    , 
-}
-, } ")).
-Eval vm_compute in ("<<<M1221>>>" ++ check (runes_of_ascii "root packet pack {
-    charz calculatedFrom `{ , }` , match i8i8
-as o
-    { [
-65535
-    // `tick` ""quote"" 'q'
-    ] :
-    len ""CRC32"" :Foo
-,	[ ""a\""b"" ] :Foo """ ++ [128512]%N ++ runes_of_ascii """: options1,}
-    , repeat//
-u64  roots, u8x
-`two words`, zchar // trailing space 
-, trueish , u64 u128 @lengthOf( packetx ) `a\` ,
-@tag(
-    1 )// " ++ [27880; 37322]%N ++ runes_of_ascii "
-uint32 pack @calculatedFrom( ""\n"" )// @lengthOf(
-, @tag( 1 )	float32 // @lengthOf(
-len
-, @tag( 7) float32
-falsey
-    , }
-")).
-Eval vm_compute in ("<<<M1035>>>" ++ check (runes_of_ascii "  packet//	t
-leftPad
-// @lengthOf(
-//x
-{  falsey `it's` , Packet u128 , // `tick` ""quote"" 'q'
-float calculatedFrom, zchar[1] options1 @calculatedFrom(
-    ""a\\"" ) , zchar[ 42]As ,
-    @rightPad (
-    )
-    T `say ""hi""`, body
-//x
-//
-Header ,
-    f32 T , @calculatedFrom( """ ++ [233]%N ++ runes_of_ascii "t" ++ [233]%N ++ runes_of_ascii """ ) MetaDataX  Pad `// not a comment`
-    , }	packet u {
-/// triple
-// c
-int16
-Header	`say ""hi""` ,
-    } MetaData options1 {} // trailing space ")).
-Eval vm_compute in ("<<<M1324>>>" ++ check (runes_of_ascii "
-root	packet A
-// c
-// c
-{/// triple
-repeat string Packet`say ""hi""` ,} MetaData o { char[] u128 `line1
-line2`, lengthOf x_y_z , char[1 ]	i8i8 `a\` , int16 leftPad
-    // a // b
-    `two words`
-    , i16 asx
-,
-} // packet A { u8 x, }
-MetaData
-    charz
-    { Header	a1 , Header // a // b
-trueish
-`u8 x,` // `tick` ""quote"" 'q'
-, u128
-stringy, uint8
-matchKey , uint32 options1, matchKey
-    i8i8 , }")).
-Eval vm_compute in ("<<<M1260>>>" ++ check (runes_of_ascii "root packet
-roots { i8i8
-@calculatedFrom( ""abc"" ) , repeat uint32 matchKey `doc` , char[255 ]
-A @lengthOf( calculatedFrom
-) `{ , }` // c
-,
-crc//x
-{ A Header `
-` , char[] o ,repeat zchar[ 1
-]//x
-body
-`" ++ [233]%N ++ runes_of_ascii "` ,//	t
-}, int8 u ,
-    match packetx as	u
-{ [ /// triple
-0
-    // a // b
-    , ""`tick`"" ]:
-Packet//
-,""\" ++ [233]%N ++ runes_of_ascii """
-    /// triple
-    : Packet, [
-4294967296 ]
-: matchKey,}
-    ,}
-")).
-Eval vm_compute in ("<<<M4053>>>" ++ check (runes_of_ascii "
-options
-
-    {	trueish=
-
-    uint64	lengthOf
-=u32  ;	matchKey  =  """" 
+    @lengthOf(leftPad // packet A { u8 x, }
+)
+@leftPad ( // @lengthOf(
+'0' )@calculatedFrom( """"
+    // packet A { u8 x, }
+    ) metadata , }")).
+Eval vm_compute in ("<<<M159>>>" ++ check (runes_of_ascii "packet BodyLength
+    { repeat string As `{ , }`
+,	@tag(4294967296 ) match Pad as
+lengthOf { //	t
+007	: // `tick` ""quote"" 'q'
+i8i8 /// triple
+,""a\""b"": //x
+msg_type,	}, repeat
+    uint32 Z9_ , @tag( 00 )// `tick` ""quote"" 'q'
+charz
+    , string
     // trailing space 
-  	//	t
-    ;
+    i8i8 // packet A { u8 x, }
+@lengthOf( BodyLength ) ,@calculatedFrom(
+    ""{,}""  )
+    // a // b
+    @leftPad// " ++ [27880; 37322]%N ++ runes_of_ascii "
+( )
+leftPad metadata  ,
+//
+// " ++ [128512]%N ++ runes_of_ascii " emoji
+string i8i8 ``
+    , uint64 trueish@calculatedFrom(
+""1""
+/// triple
+// " ++ [27880; 37322]%N ++ runes_of_ascii "
+) `
+`, }")).
+Eval vm_compute in ("<<<M813>>>" ++ check (runes_of_ascii "root packet
+asx
+    { match float	as float { 10
+    :
+    Z9_,
+    [ 3,
+0 ] //	t
+: leftPad
+, 7 :
+    msg_type ,
+}, BodyLength roots
+, u32
+    len  `tab	here`, @tag(42
+) float64
+charz @lengthOf( float)
+    , u ,char[] T @calculatedFrom(
+    ""a	b"") `// not a comment` , BodyLength ,
+repeat MetaDataX
+    ,
+    @calculatedFrom(
+""CRC32"" )@calculatedFrom(
+// c
+//	t
+""packet"") @leftPad (// a // b
+'\x00' ) msg_type	@lengthOf(
+    /// triple
+    _x
+) ,} options{// c
+crc =
+    ""`tick`"" ; }")).
+Eval vm_compute in ("<<<M4172>>>" ++ check (runes_of_ascii "
 
+  packet	T
+
+{  
+      /// triple
+	// @lengthOf(
+
+@tag( 007 
+) 
+T
+
+    @calculatedFrom( ""CRC32""  )
+
+    //	t
+		//
+  	,  @tag( 	 // " ++ [27880; 37322]%N ++ runes_of_ascii "
+  65535 )
+
+    repeat
+tag
+{	a1
+    @calculatedFrom(
+
+""a\""b""
+
+    )	,
+
+},
+    As	{char[//	t
+007
+	]lengthOf  , char[]
+x@lengthOf( crc )	``
+
+    ,  repeat
+
+    i8  matchKey
+,tag  Z9_,}	,	repeat
+    // c
+	/// triple
+  uint64
+    zchar 
+    // packet A { u8 x, }
+`doc`
+	, 
+@tag(255  )
+	repeat zchar[
+    7]
+lengthOf	,	}
+")).
+Eval vm_compute in ("<<<M3932>>>" ++ check (runes_of_ascii "root packet pack {
+    repeat u8x `a\`,
+    char[3] MetaDataX `two words`,
+    @leftPad(' ')
+    zchar[4294967296] crc @calculatedFrom(""" ++ [128512]%N ++ runes_of_ascii """),
+    @lengthOf(options1)
+    // " ++ [128512]%N ++ runes_of_ascii " emoji
+    // " ++ [27880; 37322]%N ++ runes_of_ascii "
+    @calculatedFrom(""x y"")
+    repeat u {
+        repeat x_y_z options1 `two words`,
+        zchar[3] charz,
+        Logon {
+            u8 pack,
+            repeat zchar,
+            i8i8 {
+                repeat u8 matchKey,
+            },
+        },
+    },
+}")).
+Eval vm_compute in ("<<<M1163>>>" ++ check (runes_of_ascii "MetaData
+    uint8x {
+_x  stringy ,	i8i8
+_x, char[
+    1 ] a1
+    `it's` ,
+crc metadata
+,
+} packet Logon {/// triple
+repeat Logon stringy
+    , match falsey  as
+T/// triple
+{ [ 1  ]
+    :packetx 65535 : pack	, [ """ ++ [28040; 24687]%N ++ runes_of_ascii """
+, ""abc""] : metadata ,}// @lengthOf(
+,
+@calculatedFrom(	""x y""
+//	t
+//
+)repeat	len {lengthOf @calculatedFrom(
+""`tick`""), u8x msg_type,
+},
+    @calculatedFrom( ""\n"" ) repeat
+    // @lengthOf(
+    i64 BodyLength , }
+")).
+Eval vm_compute in ("<<<M923>>>" ++ check (runes_of_ascii "packet As // " ++ [27880; 37322]%N ++ runes_of_ascii "
+{ zchar[// trailing space 
+3 ] BodyLength ,  @lengthOf( leftPad // a // b
+) @tag( 65535 )
+    roots // trailing space 
+MetaDataX , u32 T
+    `tab	here`,	}
+    packet
+string_{@lengthOf( options1
+) A
+T  `say ""hi""` ,match BodyLength
+    as  As {
+[ // c
+""abc"" , ""abc"" ]: Header ,
+""// no comment"" // trailing space 
+:  packetx  ,  }
+,  } packet
+msg_type { char[]
+Z9_ `" ++ [28040; 24687; 31867; 22411]%N ++ runes_of_ascii "`, repeat msg_type trueish , }")).
+Eval vm_compute in ("<<<M945>>>" ++ check (runes_of_ascii "root packet// trailing space 
+i64_ {@leftPad
+    ( '\x00'
+// a // b
+// `tick` ""quote"" 'q'
+)
+match roots  as A { [ ""\n""
+/// triple
+//
+,
+10 , 00
+    ] :asx ,} ,	zchar[
+1] body
+@calculatedFrom( ""abc"" ) `line1
+line2`// c
+, int8	Z9_ ,	u { falsey zchar ,
+    repeat uint16 a1
+,},repeat uint16 i64_ `crlf
+line`
+, pack  `crlf
+line`
+    , roots ,
+match u128 as o	{00: /// triple
+Header ,},repeat u A , }
+")).
+Eval vm_compute in ("<<<M3995>>>" ++ check (runes_of_ascii "
+
+  root packet
+    i64_
+    { @tag(
+
+    4294967296
+
+    ) match  lengthOf
+as	// " ++ [27880; 37322]%N ++ runes_of_ascii "
+charz
+{	1:
+
+    T , } 
+, 
+repeat
+char[
+00
+	] MetaDataX//x
+  , match // @lengthOf(
+    Foo as chars{ 	 // `tick` ""quote"" 'q'
+    """ ++ [28040; 24687]%N ++ runes_of_ascii """ :
+
+charz
+	,	}
+
+,
 }
-options{  Packet
-	=
+root packet MetaDataX  {  @lengthOf( chars// " ++ [128512]%N ++ runes_of_ascii " emoji
+		)
+    uint16 Foo , Foo
+
+,
+	}
+    packet
+
+    zchar  { // trailing space 
+  }
+")).
+Eval vm_compute in ("<<<M1328>>>" ++ check (runes_of_ascii "packet
+zchar { }  root packet f32a {}options { } root //
+packet  options1 {
+@calculatedFrom(
+""`tick`""	)char[] BodyLength , match	x_y_z as string_  {  1
+    : len ,
+    ""\" ++ [233]%N ++ runes_of_ascii """	: lengthOf ,//x
+[""""
+] :
+leftPad
+    , 3
+    : leftPad[""a	b""]
+    :
+BodyLength
+,
+} //	t
+,
+// `tick` ""quote"" 'q'
+// trailing space 
+} MetaData matchKey {
+char[ 0123456789 ] u8x	`" ++ [28040; 24687; 31867; 22411]%N ++ runes_of_ascii "`
+,
+    }
+")).
+Eval vm_compute in ("<<<M426>>>" ++ check (runes_of_ascii "
+options
+{A =' '_x
+='\x00' /// triple
+string_  =
+""it's""
+;
+// trailing space 
+// @lengthOf(
+}
+    options
+{ u8x //
+= ""it's""
+    ;
+lengthOf
+= true ; }packet matchKey	{
+    // trailing space 
+    char[ 65535 ]
+charz,
+// " ++ [128512]%N ++ runes_of_ascii " emoji
+//x
+uint8x , @leftPad
+    // a // b
+    ('\x00') repeat tag Pad
+    , i32 i8i8
+@lengthOf(
+    MetaDataX)/// triple
+, }
+")).
+Eval vm_compute in ("<<<M209>>>" ++ check (runes_of_ascii "
+packet //
+u8x
+    {
+    @lengthOf( Logon )
+    u128 { //x
+Logon@lengthOf( msg_type
+), }
+    ,  repeat
+uint8x
+, // @lengthOf(
+int64 // c
+o `tab	here`
+    , }MetaData
+    int{// " ++ [128512]%N ++ runes_of_ascii " emoji
+char[]
+    // `tick` ""quote"" 'q'
+    chars `it's`,	int crc `{ , }`, // @lengthOf(
+}root packet chars
+    { char[]
+x_y_z , }
+// trailing space 
+")).
+Eval vm_compute in ("<<<M978>>>" ++ check (runes_of_ascii "packet
+    calculatedFrom
+{ @tag(
+// packet A { u8 x, }
+// trailing space 
+007
+//	t
+// " ++ [27880; 37322]%N ++ runes_of_ascii "
+)
+/// triple
+// `tick` ""quote"" 'q'
+match
+charz as
+    Pad
+    {[	""a	b""  ,
+255 ]// c
+: a1, 0  :
+lengthOf
+    , 4294967296 : charz
+, [7 , ""a\\"" ,
+    """"
+,	007
+, """ ++ [233]%N ++ runes_of_ascii "t" ++ [233]%N ++ runes_of_ascii """ , """ ++ [28040; 24687]%N ++ runes_of_ascii """, 7 ]:// a // b
+trueish
+, ""\" ++ [233]%N ++ runes_of_ascii """
+    :
+    BodyLength
+}, }
+")).
+Eval vm_compute in ("<<<M3291>>>" ++ check (runes_of_ascii "// top
+packet // c0a
+  // c0b
+o // c1
+{ // c2a
+  // c2b
+@tag( // c3a
+  // c3b
+42 // c4a
+  // c4b
+)
+    // c5
+repeat
+    // c6
+x { char[ // c9a
+  // c9b
+0123456789 // c10
+] // c11a
+  // c11b
+i64_ // c12a
+  // c12b
+,
+    // c13
+} ,
+    // c15
+} options // c17a
+  // c17b
+{ // c18a
+  // c18b
+} // c19a
+  // c19b
+")).
+Eval vm_compute in ("<<<M1475>>>" ++ check (runes_of_ascii "root packet Foo // " ++ [128512]%N ++ runes_of_ascii " emoji
+{ } options {
+    // a // b
+    tag // `tick` ""quote"" 'q'
+= //	t
+""""
+    ; u8x = zchar[ zchar[0  ] }
+MetaData
+    int {zchar[ 10]
+lengthOf	`` , i64 u8x`// not a comment` ,MetaDataX pack// `tick` ""quote"" 'q'
+`crlf
+line`
+, Logon charz `crlf
+line`
+    ,
+    // a // b
+    }
+")).
+Eval vm_compute in ("<<<M1522>>>" ++ check (runes_of_ascii "root packet Foo // " ++ [128512]%N ++ runes_of_ascii " emoji
+{ } options {
+    // a // b
+    tag // `tick` ""quote"" 'q'
+= //	t
+""""
+    ; u8x = zchar[0  ] }
+MetaData
+    int {zchar[ 10 i16
+lengthOf	`` , i64 u8x`// not a comment` ,MetaDataX pack// `tick` ""quote"" 'q'
+`crlf
+line`
+, Logon charz `crlf
+line`
+    ,
+    // a // b
+    }
+")).
+Eval vm_compute in ("<<<M3842>>>" ++ check (runes_of_ascii "MetaData
+
+    _x{  BodyLength	string_`crlf
+line` ,  
+      //x
+
+//x
+
+i64 
+    //
+	zchar ,
+
+calculatedFrom MetaDataX
+    ,
+
+    float32 Pad
+`it's`
+	, } 
+packet
+
+    As
+{  repeat //	t
+metadata
+BodyLength  `a\`	,
 
 string 
-charz =	uint16
-	MetaDataX
-
-    =
-""abc""
-
-}
-root
-packet tag{ 
-options1 	 // " ++ [27880; 37322]%N ++ runes_of_ascii "
-	  i8i8//
-,
-
-@calculatedFrom( """ ++ [28040; 24687]%N ++ runes_of_ascii """	)	match falsey
-    as 
-BodyLength
-{ 10
-	:
-
-    u8x
-
-    ,}
-,Z9_ len, msg_type 
-`// not a comment`,
-
-} ")).
-Eval vm_compute in ("<<<M806>>>" ++ check (runes_of_ascii "  MetaData  As/// triple
-{
-    zchar[ 255 ] repeatCount ,u32 lengthOf`u8 x,`
-// " ++ [27880; 37322]%N ++ runes_of_ascii "
-// c
-, o crc
-    , a1	u ,BodyLength matchKey ,
-char[ 00
-//	t
-// " ++ [128512]%N ++ runes_of_ascii " emoji
-]options1
-    `
-` // `tick` ""quote"" 'q'
-, }packet u8x {
-char[0 ] As @calculatedFrom( ""packet""	) , @calculatedFrom( ""\" ++ [233]%N ++ runes_of_ascii """ )@lengthOf(
-int )	repeat
-    //x
-    trueish
-T
-,float32 o
-`u8 x,` ,}
-//	t
-")).
-Eval vm_compute in ("<<<M4085>>>" ++ check (runes_of_ascii "MetaData
-    int {  //x
-    u8x
-float
-,zchar[
-
-3
-    ]
-	body `" ++ [28040; 24687; 31867; 22411]%N ++ runes_of_ascii "`
-    ,Z9_  leftPad // c
-	,f32a  msg_type
-
-    ,i64_	// " ++ [27880; 37322]%N ++ runes_of_ascii "
-    chars,
-    u8x o ,  
-      // packet A { u8 x, }
-  }
-options 
-{ Z9_ 
-  // packet A { u8 x, }
-	=	false
-    ; 
-MetaDataX
-
-    = 	 // packet A { u8 x, }
-  '\x00'; f32a
-    =	""" ++ [28040; 24687]%N ++ runes_of_ascii """ ;x_y_z
-
-= ' '
-
-    ; } ")).
-Eval vm_compute in ("<<<M1138>>>" ++ check (runes_of_ascii "MetaData
-metadata{
-    char[3// " ++ [128512]%N ++ runes_of_ascii " emoji
-] roots , As zchar,
-u
-msg_type	`say ""hi""` , float32 options1 ``	, char[]
-packetx
-    ,
-}root
-packet f32a {
-    char[]
-MetaDataX `{ , }` , }
-/// triple
-// c
-packet _x{
-@lengthOf( A
-) i64 x
-    ,
-    int @lengthOf( // " ++ [128512]%N ++ runes_of_ascii " emoji
-MetaDataX), repeat BodyLength{ f32 lengthOf , } , }
-")).
-Eval vm_compute in ("<<<M1280>>>" ++ check (runes_of_ascii "
-root packet  uint8x
-{x_y_z zchar`{ , }` ,// `tick` ""quote"" 'q'
-}
-    root packet zchar { //x
-@tag(42 ) @leftPad (
-    //
-    '\x00' ) len options1 `two words`
-    , repeat char[ 255]_x ,} options {
-options1 // " ++ [27880; 37322]%N ++ runes_of_ascii "
-='\x00'msg_type= 0123456789 leftPad =// a // b
-' ' ; T	= /// triple
-true roots	= ""abc""//
-;}")).
-Eval vm_compute in ("<<<M1432>>>" ++ check (runes_of_ascii "root packet Foo // " ++ [128512]%N ++ runes_of_ascii " emoji
-{ @lengthOf( options {
-    // a // b
-    tag // `tick` ""quote"" 'q'
-= //	t
-""""
-    ; u8x = zchar[0  ] }
-MetaData
-    int {zchar[ 10]
-lengthOf	`` , i64 u8x`// not a comment` ,MetaDataX pack// `tick` ""quote"" 'q'
-`crlf
-line`
-, Logon charz `crlf
-line`
-    ,
-    // a // b
-    }
-")).
-Eval vm_compute in ("<<<M1611>>>" ++ check (runes_of_ascii "root packet Foo // " ++ [128512]%N ++ runes_of_ascii " emoji
-{ } options {
-    // a // b
-    tag // `tick` ""quote"" 'q'
-= //	t
-""""
-    ; u8x = zchar[0  ] }
-MetaData
-    int {zchar[ 10]
-lengthO@tagf	`` , i64 u8x`// not a comment` ,MetaDataX pack// `tick` ""quote"" 'q'
-`crlf
-line`
-, Logon charz `crlf
-line`
-    ,
-    // a // b
-    }
-")).
-Eval vm_compute in ("<<<M1535>>>" ++ check (runes_of_ascii "root packet Foo // " ++ [128512]%N ++ runes_of_ascii " emoji
-{ } options {
-    // a // b
-    tag // `tick` ""quote"" 'q'
-= //	t
-""""
-    ; u8x = zchar[0  ] }
-MetaData
-    int {zchar[ 10]
-lengthOf	`` , , i64 u8x`// not a comment` ,MetaDataX pack// `tick` ""quote"" 'q'
-`crlf
-line`
-, Logon charz `crlf
-line`
-    ,
-    // a // b
-    }
-")).
-Eval vm_compute in ("<<<M1431>>>" ++ check (runes_of_ascii "root packet Foo // " ++ [128512]%N ++ runes_of_ascii " emoji
-{ options } {
-    // a // b
-    tag // `tick` ""quote"" 'q'
-= //	t
-""""
-    ; u8x = zchar[0  ] }
-MetaData
-    int {zchar[ 10]
-lengthOf	`` , i64 u8x`// not a comment` ,MetaDataX pack// `tick` ""quote"" 'q'
-`crlf
-line`
-, Logon charz `crlf
-line`
-    ,
-    // a // b
-    }
-")).
-Eval vm_compute in ("<<<M1591>>>" ++ check (runes_of_ascii "root packet Foo // " ++ [128512]%N ++ runes_of_ascii " emoji
-{ } options {
-    // a // b
-    tag // `tick` ""quote"" 'q'
-= //	t
-""""
-    ; u8x = zchar[0  ] }
-MetaData
-    int {zchar[ 10]
-lengthOf	`` , i64 u8x`// not a comment` ,MetaDataX pack// `tick` ""quote"" 'q'
-`crlf
-line`
-, Logon charz ,
-    `crlf
-line`
-    // a // b
-    }
-")).
-Eval vm_compute in ("<<<M338>>>" ++ check (runes_of_ascii "
-MetaData u8x
-{
-stringy x_y_z , }
-root packet MetaDataX
-{
-len
-    @calculatedFrom(""`tick`"")// trailing space 
-`tab	here`
-    ,repeat
-falsey{
-T@calculatedFrom( ""\" ++ [233]%N ++ runes_of_ascii """
-) ,/// triple
-float32 options1 `tab	here` , // a // b
-},	@lengthOf( T
-)repeat
-float64// trailing space 
-a1
-`{ , }` ,}
-")).
-Eval vm_compute in ("<<<M879>>>" ++ check (runes_of_ascii "packet
-calculatedFrom {
-repeat charz , Logon @calculatedFrom( ""packet"")
-    , @tag(
-1 )
-    repeat zchar[	255
-] rootA
-    , string
-calculatedFrom `two words`, @rightPad ( ' ' )
-@calculatedFrom(""\n"" )@tag(4294967296 )
-chars @calculatedFrom( """ ++ [233]%N ++ runes_of_ascii "t" ++ [233]%N ++ runes_of_ascii """ ) `
-` // c
-,  repeat u128//x
-int
-,
-}")).
-Eval vm_compute in ("<<<M1549>>>" ++ check (runes_of_ascii "root packet Foo // " ++ [128512]%N ++ runes_of_ascii " emoji
-{ } options {
-    // a // b
-    tag // `tick` ""quote"" 'q'
-= //	t
-""""
-    ; u8x = zchar[0  ] }
-MetaData
-    int {zchar[ 10]
-lengthOf	`` , i64 u8x ,MetaDataX pack// `tick` ""quote"" 'q'
-`crlf
-line`
-, Logon charz `crlf
-line`
-    ,
-    // a // b
-    }
-")).
-Eval vm_compute in ("<<<M3782>>>" ++ check (runes_of_ascii "packet chars {
-    rootA i64_,
-    @calculatedFrom(""1"")
-    len @lengthOf(A) `two words`,
-    repeat float32 leftPad,
-    match Z9_ as Pad {
-        [00, 10, """ ++ [28040; 24687]%N ++ runes_of_ascii """, ""\" ++ [233]%N ++ runes_of_ascii """] : As,
-    },
-}
-
-MetaData matchKey {
-    leftPad uint8x `a\`,
-    body x_y_z,
-}
-
-packet tag {
-}")).
-Eval vm_compute in ("<<<M1295>>>" ++ check (runes_of_ascii "packet
-    len {
-@calculatedFrom( ""1""	) zchar[ 0 ] tag`u8 x,`
-    , @tag( 7 )repeat uint64 stringy `// not a comment` , @calculatedFrom( ""\n""
-)
-    @lengthOf(
-    trueish ) repeat _x zchar , @lengthOf( crc ) zchar[
-255  ]
-Foo`" ++ [233]%N ++ runes_of_ascii "`
-,} // trailing space ")).
-Eval vm_compute in ("<<<M108>>>" ++ check (runes_of_ascii "packet T {	match Packet as
-// c
-// " ++ [27880; 37322]%N ++ runes_of_ascii "
-Header { 42 : BodyLength , ""// no comment""
+Packet `two words`
+	    /// triple
 // `tick` ""quote"" 'q'
-// packet A { u8 x, }
-: matchKey ""`tick`"" :
-crc ,	[ 1  ]	:o, } ,	}// " ++ [128512]%N ++ runes_of_ascii " emoji
-packet As {
-} options  { u128
-= //x
-' '
-body=
-    char[] }
-")).
-Eval vm_compute in ("<<<M3790>>>" ++ check (runes_of_ascii "packet msg_type {
-    charz ``,
-    Logon @lengthOf(As),
-    zchar[10] Packet,
-    @rightPad(' ')
-    repeat As {
-        char[007] int @lengthOf(roots),
-        int64 u8x `" ++ [233]%N ++ runes_of_ascii "`,
-        zchar @calculatedFrom(""" ++ [233]%N ++ runes_of_ascii "t" ++ [233]%N ++ runes_of_ascii """),
-    },/// triple
-}")).
-Eval vm_compute in ("<<<M2213>>>" ++ check (runes_of_ascii "MetaData MetaData Packet { }packet	asx  { @lengthOf( asx) falsey`crlf
-line`
-,
-    }
-    packet x	{uint32// @lengthOf(
-rootA	,u32 options1 `say ""hi""` , @tag( 7
-    )// packet A { u8 x, }
-msg_type @lengthOf(
-stringy	)	, }
-
-")).
-Eval vm_compute in ("<<<M4145>>>" ++ check (runes_of_ascii "  // c
-      packet 	 // `tick` ""quote"" 'q'
-
-	f32a  { }	MetaData
-rootA {zchar[ 007// trailing space 
-    ] As
-,
-    A
-
-    u,
-
-    a1
-A,} 
-root
-packet	Logon  // @lengthOf(
-{
-	@tag(1	)
-x_y_z
-{  repeat u
-	_x ,
-} ,  } ")).
-Eval vm_compute in ("<<<M2303>>>" ++ check (runes_of_ascii "MetaData Packet { }packet	asx  { @lengthOf( asx) falsey`crlf
-line`
-,
-    }
-    packet x	{uint32// @lengthOf(
-options	,u32 options1 `say ""hi""` , @tag( 7
-    )// packet A { u8 x, }
-msg_type @lengthOf(
-stringy	)	, }
-
-")).
-Eval vm_compute in ("<<<M2218>>>" ++ check (runes_of_ascii "MetaData { Packet }packet	asx  { @lengthOf( asx) falsey`crlf
-line`
-,
-    }
-    packet x	{uint32// @lengthOf(
-rootA	,u32 options1 `say ""hi""` , @tag( 7
-    )// packet A { u8 x, }
-msg_type @lengthOf(
-stringy	)	, }
-
-")).
-Eval vm_compute in ("<<<M3687>>>" ++ check (runes_of_ascii "
-packet 
-T	{
-
-@leftPad  (
-	' '
-)
-    // " ++ [27880; 37322]%N ++ runes_of_ascii "
-
-  int32 
-        // " ++ [27880; 37322]%N ++ runes_of_ascii "
-  // @lengthOf(
-	packetx
-
-`" ++ [233]%N ++ runes_of_ascii "` , uint16
-
-    MetaDataX@lengthOf(	asx 
-
-    // packet A { u8 x, }
-	// a // b
-    )// `tick` ""quote"" 'q'
-	,
-
-}
-
-")).
-Eval vm_compute in ("<<<M760>>>" ++ check (runes_of_ascii "packet charz// @lengthOf(
-{ @calculatedFrom( ""{,}"" // @lengthOf(
-)
-char[// " ++ [128512]%N ++ runes_of_ascii " emoji
-255 ] crc @calculatedFrom( """ ++ [233]%N ++ runes_of_ascii "t" ++ [233]%N ++ runes_of_ascii """  ) , @tag(
+  	,
+} ")).
+Eval vm_compute in ("<<<M1491>>>" ++ check (runes_of_ascii "root packet Foo // " ++ [128512]%N ++ runes_of_ascii " emoji
+{ } options {
     // a // b
-    7 ) uint16
-    pack @calculatedFrom(
-    """ ++ [233]%N ++ runes_of_ascii "t" ++ [233]%N ++ runes_of_ascii """ ) `two words`
-,
-}")).
-Eval vm_compute in ("<<<M4095>>>" ++ check (runes_of_ascii "
-root packet	i64_
-    {
-
-rootA	{ zchar[
-1] 
-packetx @calculatedFrom(  ""1""  ) ,
-	// @lengthOf(
-      /// triple
-
-	} ,  }options// " ++ [128512]%N ++ runes_of_ascii " emoji
-{ chars =	// trailing space 
-  char[]
-;
-	falsey
-= u32
-; } 	 //x
+    tag // `tick` ""quote"" 'q'
+= //	t
+""""
+    ; u8x = zchar[0  ] MetaData
+}
+    int {zchar[ 10]
+lengthOf	`` , i64 u8x`// not a comment` ,MetaDataX pack// `tick` ""quote"" 'q'
+`crlf
+line`
+, Logon charz `crlf
+line`
+    ,
+    // a // b
+    }
 ")).
-Eval vm_compute in ("<<<M33>>>" ++ check (runes_of_ascii "packet BodyLength{//	t
-x
-f32a
-    `line1
-line2`
-,
-@calculatedFrom( ""a\\""
-)@lengthOf(
-repeatCount
-) i8 Header
-    `{ , }` ,float64	leftPad@calculatedFrom(	""\" ++ [233]%N ++ runes_of_ascii """)
-,@calculatedFrom(  ""1"") uint64 o, } 	 ")).
-Eval vm_compute in ("<<<M1309>>>" ++ check (runes_of_ascii "MetaData  asx { /// triple
-uint16 //
-leftPad , char[ 4294967296 ] matchKey	`
-` ,
-// @lengthOf(
-/// triple
-u32 options1 , zchar[ // @lengthOf(
-0 ] falsey
-`it's`
-, char leftPad
-    `u8 x,` , }
+Eval vm_compute in ("<<<M1459>>>" ++ check (runes_of_ascii "root packet Foo // " ++ [128512]%N ++ runes_of_ascii " emoji
+{ } options {
+    // a // b
+    tag // `tick` ""quote"" 'q'
+= //	t
+""""
+     u8x = zchar[0  ] }
+MetaData
+    int {zchar[ 10]
+lengthOf	`` , i64 u8x`// not a comment` ,MetaDataX pack// `tick` ""quote"" 'q'
+`crlf
+line`
+, Logon charz `crlf
+line`
+    ,
+    // a // b
+    }
 ")).
-Eval vm_compute in ("<<<M86>>>" ++ check (runes_of_ascii "
-packet calculatedFrom { } MetaData charz
+Eval vm_compute in ("<<<M1499>>>" ++ check (runes_of_ascii "root packet Foo // " ++ [128512]%N ++ runes_of_ascii " emoji
+{ } options {
+    // a // b
+    tag // `tick` ""quote"" 'q'
+= //	t
+""""
+    ; u8x = zchar[0  ] }
+MetaData
+     {zchar[ 10]
+lengthOf	`` , i64 u8x`// not a comment` ,MetaDataX pack// `tick` ""quote"" 'q'
+`crlf
+line`
+, Logon charz `crlf
+line`
+    ,
+    // a // b
+    }
+")).
+Eval vm_compute in ("<<<M4343>>>" ++ check (runes_of_ascii "
+packet	len
+{ @calculatedFrom(""1"")zchar[
+
+    0
+
+    ]tag `u8 x,`
+
+    , @tag(
+	7 )	repeat  uint64
+
+    stringy`// not a comment`  , @calculatedFrom(
+""\n""
+) @lengthOf(
+    trueish) repeat
+	_x	zchar ,	@lengthOf( crc )zchar[
+    255  ] 
+Foo
+    `" ++ [233]%N ++ runes_of_ascii "`
+	,	}	// trailing space 
+ 
+")).
+Eval vm_compute in ("<<<M4235>>>" ++ check (runes_of_ascii "
+packet
+
+As 
 {
-Z9_
-    // @lengthOf(
-    Pad // a // b
-, uint64
-// packet A { u8 x, }
-// a // b
-u `" ++ [233]%N ++ runes_of_ascii "` , char[
-00]
-Z9_,	}// `tick` ""quote"" 'q'
-options {} 	 ")).
-Eval vm_compute in ("<<<M4117>>>" ++ check (runes_of_ascii "MetaData roots {
 }
 
-MetaData stringy {
-    Logon leftPad `crlf
-    line`,
-    char[] metadata `{ , }`,
-    falsey pack `" ++ [233]%N ++ runes_of_ascii "`,
-    i8 repeatCount,
+    MetaData 
+Logon { i16 falsey`a\`	// `tick` ""quote"" 'q'
+      ,
+} MetaData
+
+    T { f64 uint8x`u8 x,`
+, 	 // " ++ [128512]%N ++ runes_of_ascii " emoji
+
+	char[
+00  // @lengthOf(
+	]	T , char[
+
+    0 
+]	Pad
+// c
+
+// c
+	  `crlf
+line`
+	,  char[]
+f32a
+
+,
+
+char[]	asx ,  }  //	t
+")).
+Eval vm_compute in ("<<<M711>>>" ++ check (runes_of_ascii "packet
+tag {u32 crc
+    @lengthOf(
+    a1 ) ,	string falsey `say ""hi""`, @tag( 1 )
+    asx
+, }	options { f32a	=true ; zchar
+= '\x00'
+; }packet BodyLength
+//
+// " ++ [128512]%N ++ runes_of_ascii " emoji
+{@tag( 007
+    ) @calculatedFrom( """ ++ [128512]%N ++ runes_of_ascii """ )repeat zchar[
+007 ]
+    packetx ,
+    }
+/// triple
+")).
+Eval vm_compute in ("<<<M1317>>>" ++ check (runes_of_ascii "options
+{
+uint8x =""{,}""
+// `tick` ""quote"" 'q'
+// " ++ [128512]%N ++ runes_of_ascii " emoji
+; } packet asx { match f32a
+    as
+    msg_type {
+    ""{,}"":  int [ """ ++ [233]%N ++ runes_of_ascii "t" ++ [233]%N ++ runes_of_ascii """
+,	""a\\"" ,3 ,
+    """ ++ [128512]%N ++ runes_of_ascii """ , 1  , ""a\""b"" , """ ++ [128512]%N ++ runes_of_ascii """ ] : repeatCount ,}
+, string Z9_
+`{ , }`,
+u128 {
+char[] Packet
+    , } ,//	t
+}")).
+Eval vm_compute in ("<<<M1583>>>" ++ check (runes_of_ascii "root packet Foo // " ++ [128512]%N ++ runes_of_ascii " emoji
+{ } options {
+    // a // b
+    tag // `tick` ""quote"" 'q'
+= //	t
+""""
+    ; u8x = zchar[0  ] }
+MetaData
+    int {zchar[ 10]
+lengthOf	`` , i64 u8x`// not a comment` ,MetaDataX pack// `tick` ""quote"" 'q'
+`crlf
+line`
+,")).
+Eval vm_compute in ("<<<M581>>>" ++ check (runes_of_ascii "/// triple
+MetaData zchar {As
+As ,
+    // a // b
+    int32 crc , trueish string_ `two words` , } // `tick` ""quote"" 'q'
+options { rootA =	'0' // " ++ [128512]%N ++ runes_of_ascii " emoji
+string_
+    =10	; }
+options //	t
+{ // a // b
+tag = 0
+;  i64_
+=	0
+;}
+// " ++ [27880; 37322]%N ++ runes_of_ascii "
+")).
+Eval vm_compute in ("<<<M695>>>" ++ check (runes_of_ascii "  packet
+    int // trailing space 
+{ } // a // b
+root packet uint8x {
+repeat
+zchar[42
+    ]asx`it's` , @calculatedFrom(""CRC32"" ) float64  options1
+    `{ , }`, } options { string_// trailing space 
+=
+    char[] ; } // c")).
+Eval vm_compute in ("<<<M2311>>>" ++ check (runes_of_ascii "MetaData Packet { }packet	asx  { @lengthOf( asx) falsey`crlf
+line`
+,
+    }
+    packet x	{uint32// @lengthOf(
+rootA	,u32 u32 options1 `say ""hi""` , @tag( 7
+    )// packet A { u8 x, }
+msg_type @lengthOf(
+stringy	)	, }
+
+")).
+Eval vm_compute in ("<<<M2257>>>" ++ check (runes_of_ascii "MetaData Packet { }packet	asx  { @lengthOf( asx falsey )`crlf
+line`
+,
+    }
+    packet x	{uint32// @lengthOf(
+rootA	,u32 options1 `say ""hi""` , @tag( 7
+    )// packet A { u8 x, }
+msg_type @lengthOf(
+stringy	)	, }
+
+")).
+Eval vm_compute in ("<<<M2283>>>" ++ check (runes_of_ascii "MetaData Packet { }packet	asx  { @lengthOf( asx) falsey`crlf
+line`
+,
+    }
+    uint64 x	{uint32// @lengthOf(
+rootA	,u32 options1 `say ""hi""` , @tag( 7
+    )// packet A { u8 x, }
+msg_type @lengthOf(
+stringy	)	, }
+
+")).
+Eval vm_compute in ("<<<M2333>>>" ++ check (runes_of_ascii "MetaData Packet { }packet	asx  { @lengthOf( asx) falsey`crlf
+line`
+,
+    }
+    packet x	{uint32// @lengthOf(
+rootA	,u32 options1 `say ""hi""` , root 7
+    )// packet A { u8 x, }
+msg_type @lengthOf(
+stringy	)	, }
+
+")).
+Eval vm_compute in ("<<<M1274>>>" ++ check (runes_of_ascii "options //x
+{ }
+    MetaData	i8i8
+    // @lengthOf(
+    {
+Z9_ //x
+MetaDataX
+    , } options { A=	""a	b"" ; crc =
+'0'; charz = false ; zchar
+    = string _x =
+""a\\"" }// packet A { u8 x, }
+root
+packet
+int { } 	 ")).
+Eval vm_compute in ("<<<M2245>>>" ++ check (runes_of_ascii "MetaData Packet { }packet	asx  {  asx) falsey`crlf
+line`
+,
+    }
+    packet x	{uint32// @lengthOf(
+rootA	,u32 options1 `say ""hi""` , @tag( 7
+    )// packet A { u8 x, }
+msg_type @lengthOf(
+stringy	)	, }
+
+")).
+Eval vm_compute in ("<<<M1234>>>" ++ check (runes_of_ascii "packet zchar
+    // @lengthOf(
+    {
+@tag( 255 ) match  u128 as roots { 0123456789 : //x
+u} ,
+zchar[ 4294967296
+]charz// " ++ [128512]%N ++ runes_of_ascii " emoji
+`tab	here`
+, // " ++ [27880; 37322]%N ++ runes_of_ascii "
+match
+uint8x as leftPad { 10
+: _x //x
+, }, }
+")).
+Eval vm_compute in ("<<<M1212>>>" ++ check (runes_of_ascii "packet
+As {@tag(
+7) repeat char[ 4294967296 ]	stringy,int16 falsey
+,@tag(
+00 )
+    repeat u16 rootA
+    `crlf
+line`// @lengthOf(
+,
+calculatedFrom charz ,} MetaData a1 {}MetaData asx
+{ }
+")).
+Eval vm_compute in ("<<<M34>>>" ++ check (runes_of_ascii "options{// `tick` ""quote"" 'q'
+len // `tick` ""quote"" 'q'
+= """ ++ [28040; 24687]%N ++ runes_of_ascii """;
+options1 = // " ++ [27880; 37322]%N ++ runes_of_ascii "
+int32 zchar	=
+    ""1"" ;float
+= true tag =""" ++ [28040; 24687]%N ++ runes_of_ascii """ ; } MetaData u128 { msg_type i8i8 `doc` ,	o body
+, }
+")).
+Eval vm_compute in ("<<<M1007>>>" ++ check (runes_of_ascii "MetaData options1 //	t
+{ u32 uint8x
+, int16 options1 ,
+    } options { trueish = 65535	; Header = i64 ;	x_y_z = false Logon =
+    char[]
+// `tick` ""quote"" 'q'
+// a // b
+; }")).
+Eval vm_compute in ("<<<M594>>>" ++ check (runes_of_ascii "MetaData
+// packet A { u8 x, }
+// @lengthOf(
+string_ { char[]
+Pad `// not a comment`
+, i32// a // b
+lengthOf `{ , }` ,	u16
+    As , len x_y_z , char[] rootA
+    , }
+
+")).
+Eval vm_compute in ("<<<M1249>>>" ++ check (runes_of_ascii "  options {  falsey =	u8
+;	metadata = ' ' leftPad = int64 ; lengthOf
+=
+    255 string_= // packet A { u8 x, }
+""a\""b"" ; } MetaData //
+uint8x	{ u32
+zchar , //x
+}")).
+Eval vm_compute in ("<<<M952>>>" ++ check (runes_of_ascii "packet msg_type
+{ char[]
+    body@calculatedFrom(
+    ""1"" )`doc` , @tag( 00 ) lengthOf
+@lengthOf( // c
+trueish)
+    `crlf
+line` , } // trailing space ")).
+Eval vm_compute in ("<<<M4234>>>" ++ check (runes_of_ascii "MetaData options1 {
+    u32 uint8x,
+    int16 options1,
 }
 
 options {
-    matchKey = ' '
+    trueish = 65535;
+    Header = i64;
+    x_y_z = false
+    Logon = char[];
 }")).
-Eval vm_compute in ("<<<M535>>>" ++ check (runes_of_ascii "options
-{ tag
-= string ; // `tick` ""quote"" 'q'
-chars = ""CRC32"" ;// packet A { u8 x, }
-body  = ""// no comment"" /// triple
-;}
-    packet string_{ // " ++ [128512]%N ++ runes_of_ascii " emoji
-matchKey A, }")).
-Eval vm_compute in ("<<<M3473>>>" ++ check (runes_of_ascii "
-packet
-    A
-
-{u8
-a
-
-    ,}
-
-packet
-B
-
-{u16 
-b
+Eval vm_compute in ("<<<M1668>>>" ++ check (runes_of_ascii "root packet /// triple
+rootA {	i32
+MetaDataX@calculatedFrom( ""CRC32"" ) `line1
+line2` `line1
+line2` , } MetaData BodyLength {
+u8
+rootA, } // c")).
+Eval vm_compute in ("<<<M200>>>" ++ check (runes_of_ascii "
+root packet	f32a {char[]x_y_z `doc` ,@calculatedFrom(	""CRC32""
+) A tag `u8 x,`
 ,
-    }
+int , } options { Packet =""1""
+    ; } options {  } 	 ")).
+Eval vm_compute in ("<<<M1695>>>" ++ check (runes_of_ascii "root packet /// triple
+rootA {	i32
+MetaDataX@calculatedFrom( ""CRC32"" ) `line1
+line2` , } MetaData BodyLength packet
+u8
+rootA, } // c")).
+Eval vm_compute in ("<<<M1665>>>" ++ check (runes_of_ascii "root packet /// triple
+rootA {	i32
+MetaDataX@calculatedFrom( ""CRC32"" i64 `line1
+line2` , } MetaData BodyLength {
+u8
+rootA, } // c")).
+Eval vm_compute in ("<<<M1659>>>" ++ check (runes_of_ascii "root packet /// triple
+rootA {	i32
+MetaDataX@calculatedFrom( ) ""CRC32"" `line1
+line2` , } MetaData BodyLength {
+u8
+rootA, } // c")).
+Eval vm_compute in ("<<<M1882>>>" ++ check (runes_of_ascii "packet
+    Pad // a // b
+{@lengthOf i8i8 @calculatedFrom( ""a	b"") `u8 x,` ,
+} options{ float// " ++ [128512]%N ++ runes_of_ascii " emoji
+= f64 i64_
+=//	t
+00 }
+")).
+Eval vm_compute in ("<<<M1690>>>" ++ check (runes_of_ascii "root packet /// triple
+rootA {	i32
+MetaDataX@calculatedFrom( ""CRC32"" ) `line1
+line2` , } MetaData uint16 {
+u8
+rootA, } // c")).
+Eval vm_compute in ("<<<M4298>>>" ++ check (runes_of_ascii "packet A {
+    u16 len @lengthOf(body) `
+        x`,
+    u32 crc @calculatedFrom(""CRC32"") `
+        x`,
+    string body,
+}")).
+Eval vm_compute in ("<<<M596>>>" ++ check (runes_of_ascii "options {
+}  MetaData
+    // c
+    x_y_z
+{u32	u8x	`line1
+line2` , float64 u // a // b
+`line1
+line2`  , } // @lengthOf(")).
+Eval vm_compute in ("<<<M1884>>>" ++ check (runes_of_ascii "packet
+    Pad // a // b
+{ i8i8 @calculatedFrom( ""a	b"") `u8 x,` ,
+} options{ float// " ++ [128512]%N ++ runes_of_ascii " emoji
+= f64 i64_'
+=//	t
+00 }
+")).
+Eval vm_compute in ("<<<M1847>>>" ++ check (runes_of_ascii "packet
+    Pad // a // b
+{ i8i8 @calculatedFrom( ""a	b"") `u8 x,` ,
+} options{ float// " ++ [128512]%N ++ runes_of_ascii " emoji
+f64 = i64_
+=//	t
+00 }
+")).
+Eval vm_compute in ("<<<M4168>>>" ++ check (runes_of_ascii "packet Z9_ {
+    match leftPad as options1 {
+        65535 : matchKey,
+        // packet A { u8 x, }
+    },
+    T,
+}")).
+Eval vm_compute in ("<<<M3835>>>" ++ check (runes_of_ascii "MetaData Logon {
+    zchar[10] float `" ++ [233]%N ++ runes_of_ascii "`,
+    BodyLength Z9_,
+    float32 o `a\`,
+    uint64 roots `two words`,
+}")).
+Eval vm_compute in ("<<<M1815>>>" ++ check (runes_of_ascii "packet
+    Pad // a // b
+{ i8i8 @calculatedFrom( ""a	b"")  ,
+} options{ float// " ++ [128512]%N ++ runes_of_ascii " emoji
+= f64 i64_
+=//	t
+00 }
+")).
+Eval vm_compute in ("<<<M2996>>>" ++ check (runes_of_ascii "packet A {
+  match k as n {
+    [""a"", 22, ""c c"", 4, ""e"", 66, ""g"", 8, ""i"", 10, ""k"", 12] : B
+    2 : C
+  },
+}")).
+Eval vm_compute in ("<<<M3016>>>" ++ check (runes_of_ascii "packet A {
+    u16 len @lengthOf(body) `
+`,
+    u32 crc @calculatedFrom(""CRC32"") `
+`,
+    string body,
+}")).
+Eval vm_compute in ("<<<M3354>>>" ++ check (runes_of_ascii "packet calculatedFrom { @tag( 4294967296 ) u msg_type
+// c
+, char[ 3 ] crc @lengthOf( len ) `u8 x,` , }")).
+Eval vm_compute in ("<<<M3634>>>" ++ check (runes_of_ascii "// c
+root packet u128 {
+    asx,
+}
 
-    root
-    packet
-P	{
-u8 K
-,match
-	K  as 
-M
+packet body {
+    @lengthOf(i8i8)
+    crc @lengthOf(Header),
+}// c")).
+Eval vm_compute in ("<<<M697>>>" ++ check (runes_of_ascii "options
+{ tag = 42 }root packet
+pack { zchar[ 007
+// `tick` ""quote"" 'q'
+// @lengthOf(
+]	Packet , }")).
+Eval vm_compute in ("<<<M3442>>>" ++ check (runes_of_ascii "packet B {
+    u8 a,
+    string s,
+}
+root packet P {
+    u16 L @lengthOf(B),
+    B,
+    u8 t,
+}
+")).
+Eval vm_compute in ("<<<M3230>>>" ++ check (runes_of_ascii "packet Logon { @tag( 42 ) @rightPad ( // c
+' ' ) @leftPad ( ) repeat trueish { string T , } , }")).
+Eval vm_compute in ("<<<M548>>>" ++ check (runes_of_ascii "packet leftPad { char[] MetaDataX `crlf
+line` , f32 pack @calculatedFrom(	""a\\"" ) `" ++ [28040; 24687; 31867; 22411]%N ++ runes_of_ascii "` , }
+")).
+Eval vm_compute in ("<<<M4150>>>" ++ check (runes_of_ascii "
+packet
+A { 
+match
+	k 
+as
+n
 
     {
-	1 :  A  ,	1
+	[ ""a""
+	,
+	""bb"" , 007 
+]	:
+    B
+	2:
+    C 
+}
+,
 
-    :
-    B ,
-	}
-
-    ,
-
-}")).
-Eval vm_compute in ("<<<M1361>>>" ++ check (runes_of_ascii "options { T
-= u64 // trailing space 
-uint8x = """ ++ [128512]%N ++ runes_of_ascii """ ; chars
-    = char[	0123456789 ]	;Z9_//	t
-= ""// no comment""} MetaData
-    x_y_z {
-} // `tick` ""quote"" 'q'")).
-Eval vm_compute in ("<<<M353>>>" ++ check (runes_of_ascii "packet x  {match u128
-as stringy// " ++ [128512]%N ++ runes_of_ascii " emoji
-{ // a // b
-[ """ ++ [28040; 24687]%N ++ runes_of_ascii """
-    //	t
-    ,	42 , ""// no comment"" // a // b
-,""1""] :MetaDataX
-, ""it's"" :o	,} ,
-    }
+} ")).
+Eval vm_compute in ("<<<M1686>>>" ++ check (runes_of_ascii "root packet /// triple
+rootA {	i32
+MetaDataX@calculatedFrom( ""CRC32"" ) `line1
+line2` , }")).
+Eval vm_compute in ("<<<M2002>>>" ++ check (runes_of_ascii "root
+packet crc
+    { f32a @calculatedFrom( """ ++ [233]%N ++ runes_of_ascii "t" ++ [233]%N ++ runes_of_ascii """ )
+    `say ""hi""`, , lengthOf `` ,  }")).
+Eval vm_compute in ("<<<M2042>>>" ++ check (runes_of_ascii "`root
+packet crc
+    { f32a @calculatedFrom( """ ++ [233]%N ++ runes_of_ascii "t" ++ [233]%N ++ runes_of_ascii """ )
+    `say ""hi""`, lengthOf `` ,  }")).
+Eval vm_compute in ("<<<M3421>>>" ++ check (runes_of_ascii "options {
+    LittleEndian = true;
+}
+root packet P {
+    repeat char cs,
+    u8 x,
+}
 ")).
-Eval vm_compute in ("<<<M996>>>" ++ check (runes_of_ascii "root// " ++ [27880; 37322]%N ++ runes_of_ascii "
-packet  MetaDataX { //	t
-@calculatedFrom(""it's""
-    // packet A { u8 x, }
-    )string // " ++ [27880; 37322]%N ++ runes_of_ascii "
-msg_type @calculatedFrom("""" )
-`{ , }` ,}")).
-Eval vm_compute in ("<<<M425>>>" ++ check (runes_of_ascii "MetaData metadata {options1 lengthOf , int x_y_z
-    `{ , }`  ,u16	tag `it's` ,i8i8 uint8x ,
-u16
-BodyLength`crlf
-line` , u8x len ``
-,}
-")).
-Eval vm_compute in ("<<<M4157>>>" ++ check (runes_of_ascii "packet Logon {
-    @tag(42)
-    @rightPad(' ')
-    @leftPad()
-    // c12
-    repeat trueish {
-        // c15
-        string T,
+Eval vm_compute in ("<<<M3905>>>" ++ check (runes_of_ascii "packet A {
+    match k as n {
+        [""a"", 22, ""c c""] : B,
+        2 : C,
     },
 }")).
-Eval vm_compute in ("<<<M398>>>" ++ check (runes_of_ascii "// `tick` ""quote"" 'q'
-options { calculatedFrom // " ++ [27880; 37322]%N ++ runes_of_ascii "
-=""{,}"" Pad
-= int32 ;uint8x/// triple
-= ""`tick`""
-// @lengthOf(
-// @lengthOf(
+Eval vm_compute in ("<<<M3297>>>" ++ check (runes_of_ascii "packet o
+// c
+{ @tag( 42 ) repeat x { char[ 0123456789 ] i64_ , } , } options { }")).
+Eval vm_compute in ("<<<M3329>>>" ++ check (runes_of_ascii "packet o { @tag( 42 ) repeat x { char[ 0123456789 ] i64_ , } , } options
+// c
+{ }")).
+Eval vm_compute in ("<<<M2909>>>" ++ check (runes_of_ascii "packet A {
+  match k as n {
+    [""a"", ""bb"", 007, ""d"", ""e""] : B
+    2 : C
+  },
 }")).
-Eval vm_compute in ("<<<M1724>>>" ++ check (runes_of_ascii "root packet /// trip" ++ [65279]%N ++ runes_of_ascii "le
-rootA {	i32
-MetaDataX@calculatedFrom( ""CRC32"" ) `line1
-line2` , } MetaData BodyLength {
-u8
-rootA, } // c")).
-Eval vm_compute in ("<<<M4052>>>" ++ check (runes_of_ascii "  packet
+Eval vm_compute in ("<<<M3612>>>" ++ check (runes_of_ascii "MetaData Pad {
+    roots options1 `tab	here`,//	t
+    char[0123456789] Foo,
+}")).
+Eval vm_compute in ("<<<M291>>>" ++ check (runes_of_ascii "options
+    { }
+    packet
+    string_ {@rightPad ( '0'// c
+)
+u16 body , }")).
+Eval vm_compute in ("<<<M2198>>>" ++ check (runes_of_ascii "root
+    // `'\x01'tick` ""quote"" 'q'
+    packet As { trueish Packet , }
+")).
+Eval vm_compute in ("<<<M2279>>>" ++ check (runes_of_ascii "MetaData Packet { }packet	asx  { @lengthOf( asx) falsey`crlf
+line`
+,")).
+Eval vm_compute in ("<<<M1903>>>" ++ check (runes_of_ascii "
+packet	@calculatedFrom( { @calculatedFrom(//x
+""{,}""	)lengthOf , } 	 ")).
+Eval vm_compute in ("<<<M2880>>>" ++ check (runes_of_ascii "packet A {
+  match k as n {
+    [1, 22, ""c c""] : B,
+    2 : C
+  },
+}")).
+Eval vm_compute in ("<<<M2173>>>" ++ check (runes_of_ascii "root
+    // `tick` ""quote"" 'q'
+    packet As { Packet trueish , }
+")).
+Eval vm_compute in ("<<<M1174>>>" ++ check (runes_of_ascii "options { asx = '\x00'// packet A { u8 x, }
+;
+    float = '0';
+}")).
+Eval vm_compute in ("<<<M2191>>>" ++ check (runes_of_ascii "root
+    // `tick` ""quote"" 'q'
+    packet As { trueish Packet ")).
+Eval vm_compute in ("<<<M3039>>>" ++ check (runes_of_ascii "packet A {
+    B b `
+x`,
+    B `
+x`,
+    repeat B bs `
+x`,
+}")).
+Eval vm_compute in ("<<<M3710>>>" ++ check (runes_of_ascii "root packet f32a {
+    packetx @calculatedFrom(""CRC32""),
+}")).
+Eval vm_compute in ("<<<M783>>>" ++ check (runes_of_ascii "MetaData options1 { char[] rootA ,
+    a1 body
+`" ++ [233]%N ++ runes_of_ascii "` , }
+")).
+Eval vm_compute in ("<<<M277>>>" ++ check (runes_of_ascii "  MetaData/// triple
+pack{
+i64 Header
+, u64
+As
+,
+}
+")).
+Eval vm_compute in ("<<<M356>>>" ++ check (runes_of_ascii "packet
+    x_y_z {
+i8 As@calculatedFrom(""a	b""	)  ,}")).
+Eval vm_compute in ("<<<M4083>>>" ++ check (runes_of_ascii "
+root
+packet A  { u8	x
 
-    calculatedFrom{
-@tag(
-4294967296
-	)u
-msg_type
-, char[
+`a
+    b
+  c`
 
-3
-] 
-crc
-	@lengthOf( 
-len
-	)
-
-    `u8 x,`// c
-	,
-	}
-")).
-Eval vm_compute in ("<<<M1628>>>" ++ check (runes_of_ascii "} packet /// triple
-rootA {	i32
-MetaDataX@calculatedFrom( ""CRC32"" ) `line1
-line2` , } MetaData BodyLength {
-u8
-rootA, } // c")).
-Eval vm_compute in ("<<<M1702>>>" ++ check (runes_of_ascii "root packet /// triple
-rootA {	i32
-MetaDataX@calculatedFrom( ""CRC32"" ) `line1
-line2` , } MetaData BodyLength {
-u8
-, } // c")).
-Eval vm_compute in ("<<<M148>>>" ++ check (runes_of_ascii "packet i8i8 //x
-{int16 // trailing space 
-stringy // " ++ [128512]%N ++ runes_of_ascii " emoji
-@calculatedFrom(
-""// no comment"" ),
-} packet
-_x {
-    }
-")).
-Eval vm_compute in ("<<<M1893>>>" ++ check (runes_of_ascii "packet
-    Pad // a // b
-{ caf" ++ [233]%N ++ runes_of_ascii "_1 @calculatedFrom( ""a	b"") `u8 x,` ,
-} options{ float// " ++ [128512]%N ++ runes_of_ascii " emoji
-= f64 i64_
-=//	t
-00 }
-")).
-Eval vm_compute in ("<<<M1797>>>" ++ check (runes_of_ascii "packet
-    Pad // a // b
-{ @calculatedFrom( i8i8 ""a	b"") `u8 x,` ,
-} options{ float// " ++ [128512]%N ++ runes_of_ascii " emoji
-= f64 i64_
-=//	t
-00 }
-")).
-Eval vm_compute in ("<<<M1860>>>" ++ check (runes_of_ascii "packet
-    Pad // a // b
-{ i8i8 @calculatedFrom( ""a	b"") `u8 x,` ,
-} options{ float// " ++ [128512]%N ++ runes_of_ascii " emoji
-= f64 i64_
-//	t
-00 }
-")).
-Eval vm_compute in ("<<<M1873>>>" ++ check (runes_of_ascii "packet
-    Pad // a // b
-{ i8i8 @calculatedFrom( ""a	b"") `u8 x,` ,
-} options{ float// " ++ [128512]%N ++ runes_of_ascii " emoji
-= f64 i64_
-=//	t
-00")).
-Eval vm_compute in ("<<<M1781>>>" ++ check (runes_of_ascii "
-    Pad // a // b
-{ i8i8 @calculatedFrom( ""a	b"") `u8 x,` ,
-} options{ float// " ++ [128512]%N ++ runes_of_ascii " emoji
-= f64 i64_
-=//	t
-00 }
-")).
-Eval vm_compute in ("<<<M222>>>" ++ check (runes_of_ascii "MetaData float { }  options {
-msg_type=""a	b""
-    i8i8	= true stringy = ""CRC32""
-    } options { len
-= ""\" ++ [233]%N ++ runes_of_ascii """ }")).
-Eval vm_compute in ("<<<M3444>>>" ++ check (runes_of_ascii "
-packet	B  { u8
-    a	,	string s	, }
-root packet
-
-    P {	u16
-
-L
-	@lengthOf( B)	,
-B,
-u8
-t
-	,
+,
 
     } ")).
-Eval vm_compute in ("<<<M3347>>>" ++ check (runes_of_ascii "packet calculatedFrom { @tag( 4294967296 // c
-) u msg_type , char[ 3 ] crc @lengthOf( len ) `u8 x,` , }")).
-Eval vm_compute in ("<<<M4397>>>" ++ check (runes_of_ascii "  packet
+Eval vm_compute in ("<<<M2400>>>" ++ check (runes_of_ascii "MetaData [
+{
+i64
+chars	, } // `tick` ""quote"" 'q'")).
+Eval vm_compute in ("<<<M3030>>>" ++ check (runes_of_ascii "MetaData M {
+    u8 x `a
 
-A 
-{ match
+b`,
+    T t `a
 
-k
-	as
-n	{
-    [
-1
-    , 22 
-, 
-007 
-,	4 
-, 5] :
-
-    B,
-
-2 
-:
-
-    C } ,}
-")).
-Eval vm_compute in ("<<<M178>>>" ++ check (runes_of_ascii "packet As {
-int16
-A , }packet u	{ @lengthOf( Pad
-)
-    f64
-    metadata	@lengthOf( a1
-)
-    ,
-}
-")).
-Eval vm_compute in ("<<<M2990>>>" ++ check (runes_of_ascii "packet A {
-  match k as n {
-    [1, 22, 007, 4, 5, 66, 7, 8, 9, 10, 11, 12] : B
-    2 : C
-  },
+b`,
 }")).
-Eval vm_compute in ("<<<M3229>>>" ++ check (runes_of_ascii "packet Logon { @tag( 42 ) @rightPad
+Eval vm_compute in ("<<<M1656>>>" ++ check (runes_of_ascii "root packet /// triple
+rootA {	i32
+MetaDataX")).
+Eval vm_compute in ("<<<M4129>>>" ++ check (runes_of_ascii "options {
+    Foo = int8;
+    As = 007
+}//	t")).
+Eval vm_compute in ("<<<M2115>>>" ++ check (runes_of_ascii "MetaData x
+{// " ++ [128512]%N ++ runes_of_ascii " emoji
+i16 i16 stringy , }")).
+Eval vm_compute in ("<<<M786>>>" ++ check (runes_of_ascii "options{MetaDataX = char[] }
+/// triple
+")).
+Eval vm_compute in ("<<<M3197>>>" ++ check (runes_of_ascii "MetaData zchar { zchar[
 // c
-( ' ' ) @leftPad ( ) repeat trueish { string T , } , }")).
-Eval vm_compute in ("<<<M109>>>" ++ check (runes_of_ascii "root
-    packet lengthOf { @tag(4294967296 ) @calculatedFrom(
-""" ++ [128512]%N ++ runes_of_ascii """)
-    i32
-msg_type `a\`
-, }
-")).
-Eval vm_compute in ("<<<M4321>>>" ++ check (runes_of_ascii "options {
-    Packet = 007;
-    u128 = false;
-    Header = 42
-    Z9_ = char[10];
-}// a // b")).
-Eval vm_compute in ("<<<M2934>>>" ++ check (runes_of_ascii "packet A {
-  match k as n {
-    [""a"", ""bb"", 007, ""d"", ""e"", 66, ""g""] : B,
-    2 : C
-  },
-}")).
-Eval vm_compute in ("<<<M2930>>>" ++ check (runes_of_ascii "packet A {
-  match k as n {
-    [""a"", 22, ""c c"", 4, ""e"", 66, ""g""] : B,
-    2 : C
-  },
-}")).
-Eval vm_compute in ("<<<M1979>>>" ++ check (runes_of_ascii "root
-packet crc
-    { root @calculatedFrom( """ ++ [233]%N ++ runes_of_ascii "t" ++ [233]%N ++ runes_of_ascii """ )
-    `say ""hi""`, lengthOf `` ,  }")).
-Eval vm_compute in ("<<<M3918>>>" ++ check (runes_of_ascii "packet
-	A
-{ 
-u32
-    crc@calculatedFrom( ""\
-"" )  ,@calculatedFrom( ""\
-"" ) u8 y	, }
+3 ] Pad , }")).
+Eval vm_compute in ("<<<M2845>>>" ++ check (runes_of_ascii "k" ++ [65533]%N ++ runes_of_ascii "4" ++ [65533]%N ++ runes_of_ascii "uQ" ++ [65533]%N ++ runes_of_ascii "az" ++ [65533]%N ++ runes_of_ascii "e" ++ [65533; 65533]%N ++ runes_of_ascii ":" ++ [65533]%N ++ runes_of_ascii "o" ++ [65533; 28; 65533]%N ++ runes_of_ascii "o" ++ [14; 65533]%N ++ runes_of_ascii "9" ++ [65533; 24; 1654; 65533]%N ++ runes_of_ascii "|2" ++ [65533; 65533]%N ++ runes_of_ascii "1\" ++ [65533]%N ++ runes_of_ascii "iI" ++ [65533; 65533]%N ++ runes_of_ascii """")).
+Eval vm_compute in ("<<<M4358>>>" ++ check (runes_of_ascii "MetaData M {
+}// c
 
-")).
-Eval vm_compute in ("<<<M2901>>>" ++ check (runes_of_ascii "packet A {
-  match k as n {
-    [""a"", ""bb"", ""c c"", ""d"", ""e""] : B
-    2 : C
-  },
-}")).
-Eval vm_compute in ("<<<M3320>>>" ++ check (runes_of_ascii "packet o { @tag( 42 ) repeat x { char[ 0123456789 ] i64_ , // c
-} , } options { }")).
-Eval vm_compute in ("<<<M411>>>" ++ check (runes_of_ascii "
-packet
-msg_type{ char[// trailing space 
-00 ] x_y_z@lengthOf(
-msg_type	) , }
-")).
-Eval vm_compute in ("<<<M2905>>>" ++ check (runes_of_ascii "packet A {
-  match k as n {
-    [""a"", 22, ""c c"", 4, ""e""] : B
-    2 : C
-  },
-}")).
-Eval vm_compute in ("<<<M682>>>" ++ check (runes_of_ascii "packet trueish
-    //x
-    { @calculatedFrom( ""abc""
-) body `tab	here`	, }
-")).
-Eval vm_compute in ("<<<M2898>>>" ++ check (runes_of_ascii "packet A {
-  match k as n {
-    [1, 22, 007, 4, 5] : B,
-    2 : C
-  },
-}")).
-Eval vm_compute in ("<<<M2894>>>" ++ check (runes_of_ascii "packet A {
-  match k as n {
-    [1, 22, ""c c"", 4] : B
-    2 : C
-  },
-}")).
-Eval vm_compute in ("<<<M2883>>>" ++ check (runes_of_ascii "packet A {
-  match k as n {
-    [""a"", ""bb"", 007] : B
-    2 : C
-  },
-}")).
-Eval vm_compute in ("<<<M3659>>>" ++ check (runes_of_ascii "
-
-  options{ 
-string_
-=	7
-	tag
-
-    =string
-	;
-	roots= true ;
-} ")).
-Eval vm_compute in ("<<<M2210>>>" ++ check (runes_of_ascii "root
-    // `tick` ""quote"" 'q'
-    packet " ++ [21517; 23383]%N ++ runes_of_ascii " { trueish Packet , }
-")).
-Eval vm_compute in ("<<<M2161>>>" ++ check (runes_of_ascii "root
-    // `tick` ""quote"" 'q'
-    packet  { trueish Packet , }
-")).
-Eval vm_compute in ("<<<M2868>>>" ++ check (runes_of_ascii "packet A {
-  match k as n {
-    [1, ""bb""] : B
-    2 : C
-  },
-}")).
-Eval vm_compute in ("<<<M3420>>>" ++ check (runes_of_ascii "root  packet
-
-    P
-
-    {
-repeat
-char cs  ,
-u8
-x  ,
-} ")).
-Eval vm_compute in ("<<<M3721>>>" ++ check (runes_of_ascii "root packet P {
-    repeat string ss,
-    repeat u16 ns,
-}")).
-Eval vm_compute in ("<<<M1819>>>" ++ check (runes_of_ascii "packet
-    Pad // a // b
-{ i8i8 @calculatedFrom( ""a	b"")")).
-Eval vm_compute in ("<<<M4183>>>" ++ check (runes_of_ascii "
-options
-    {  int =	//x
-  ""\" ++ [233]%N ++ runes_of_ascii """ 	 // " ++ [128512]%N ++ runes_of_ascii " emoji
-}  //
- 
-")).
-Eval vm_compute in ("<<<M4216>>>" ++ check (runes_of_ascii "
-root packet	BodyLength{ }
-    packet uint8x
-
-{ 
-}
-")).
-Eval vm_compute in ("<<<M3164>>>" ++ check (runes_of_ascii "packet A { u8 x, } // a
-// b
-packet B {} // c
-// d")).
-Eval vm_compute in ("<<<M2264>>>" ++ check (runes_of_ascii "MetaData Packet { }packet	asx  { @lengthOf( asx)")).
-Eval vm_compute in ("<<<M2844>>>" ++ check (runes_of_ascii "char[] options 007 , repeat int64 00 { } zchar[")).
-Eval vm_compute in ("<<<M1744>>>" ++ check (runes_of_ascii "options } {options {  } // `tick` ""quote"" 'q'")).
-Eval vm_compute in ("<<<M754>>>" ++ check (runes_of_ascii "MetaData
-    /// triple
-    BodyLength
-{}
-")).
-Eval vm_compute in ("<<<M3050>>>" ++ check (runes_of_ascii "options {
-    a = ""x\
-y"";
-    b = ""x\
-y""
-}")).
-Eval vm_compute in ("<<<M838>>>" ++ check (runes_of_ascii "MetaData
-zchar {_x
+MetaData N {
+}// d")).
+Eval vm_compute in ("<<<M2710>>>" ++ check (runes_of_ascii "} f64 @rightPad packet i8 } MetaData")).
+Eval vm_compute in ("<<<M2739>>>" ++ check ([65533; 65533]%N ++ runes_of_ascii "]" ++ [37017; 21]%N ++ runes_of_ascii "&`+" ++ [65533; 65533; 65533]%N ++ runes_of_ascii "lT4" ++ [65533]%N ++ runes_of_ascii "L" ++ [5; 14; 18; 65533; 65533; 17]%N ++ runes_of_ascii """5" ++ [65533]%N ++ runes_of_ascii ":Y" ++ [65533; 65533]%N ++ runes_of_ascii "xTV" ++ [65533; 65533]%N)).
+Eval vm_compute in ("<<<M2584>>>" ++ check (runes_of_ascii "packet A { x @lengthOf(y) `d`, }")).
+Eval vm_compute in ("<<<M268>>>" ++ check (runes_of_ascii "options { // " ++ [27880; 37322]%N ++ runes_of_ascii "
 T
-    , } options {}")).
-Eval vm_compute in ("<<<M3198>>>" ++ check (runes_of_ascii "MetaData zchar { zchar[ 3 // c
-] Pad , }")).
-Eval vm_compute in ("<<<M4294>>>" ++ check (runes_of_ascii "root packet Pad {
-    zchar[7] float,
-}")).
-Eval vm_compute in ("<<<M348>>>" ++ check (runes_of_ascii "packet
-    A
-{} options {
-T	=
-'0' }
+=int64  }
 ")).
-Eval vm_compute in ("<<<M2765>>>" ++ check (runes_of_ascii "@tag( options options [ : char[] i64")).
-Eval vm_compute in ("<<<M2582>>>" ++ check (runes_of_ascii "packet A { string x @lengthOf(y) }")).
-Eval vm_compute in ("<<<M1604>>>" ++ check (runes_of_ascii "root packet Foo // " ++ [128512]%N ++ runes_of_ascii " emoji
-{ } o")).
-Eval vm_compute in ("<<<M2622>>>" ++ check (runes_of_ascii "packet A { @leftPad('0' u8 x, }")).
-Eval vm_compute in ("<<<M3108>>>" ++ check (runes_of_ascii "packet A {
- u8 x `d" ++ [8239]%N ++ runes_of_ascii "`, // c" ++ [8239]%N ++ runes_of_ascii "
+Eval vm_compute in ("<<<M3143>>>" ++ check (runes_of_ascii "packet A {
+ u8 x `d" ++ [6158]%N ++ runes_of_ascii "`, // c" ++ [6158]%N ++ runes_of_ascii "
 }")).
-Eval vm_compute in ("<<<M1092>>>" ++ check (runes_of_ascii "MetaData BodyLength //	t
-{ }")).
-Eval vm_compute in ("<<<M2722>>>" ++ check (runes_of_ascii "@tag( { } : match : { false")).
-Eval vm_compute in ("<<<M2715>>>" ++ check (runes_of_ascii " " ++ [65533]%N ++ runes_of_ascii "=" ++ [65533; 972; 65533; 65533; 7; 65533; 65533; 1876; 65533; 65533]%N ++ runes_of_ascii "4G" ++ [27; 65533; 18; 65533]%N ++ runes_of_ascii "U" ++ [65533; 65533]%N ++ runes_of_ascii "+" ++ [65533; 23]%N ++ runes_of_ascii "{")).
-Eval vm_compute in ("<<<M3381>>>" ++ check (runes_of_ascii "
+Eval vm_compute in ("<<<M2587>>>" ++ check (runes_of_ascii "packet A { x @lengthOf(3), }")).
+Eval vm_compute in ("<<<M3032>>>" ++ check (runes_of_ascii "packet A {
+    u8 x `x
+`,
+}")).
+Eval vm_compute in ("<<<M3014>>>" ++ check (runes_of_ascii "packet A {
+    u8 x `
+`,
+}")).
+Eval vm_compute in ("<<<M3987>>>" ++ check (runes_of_ascii "packet string_ {
+    u,
+}")).
+Eval vm_compute in ("<<<M3278>>>" ++ check (runes_of_ascii "options { u8x =
 // c
-packet lengthOf { }")).
-Eval vm_compute in ("<<<M3275>>>" ++ check (runes_of_ascii "options { u8x // c
-= 3 }")).
-Eval vm_compute in ("<<<M3642>>>" ++ check (runes_of_ascii "packet lengthOf {
-}// c")).
-Eval vm_compute in ("<<<M69>>>" ++ check (runes_of_ascii "options	{ i64_ =00 }
-")).
-Eval vm_compute in ("<<<M731>>>" ++ check (runes_of_ascii "MetaData crc{//	t
-}
-")).
-Eval vm_compute in ("<<<M2770>>>" ++ check ([65533]%N ++ runes_of_ascii "9" ++ [20; 65533; 11; 23; 5; 2; 65533; 65533; 65533]%N ++ runes_of_ascii "
-" ++ [65533; 65533; 65533; 27]%N ++ runes_of_ascii "b" ++ [65533; 17]%N)).
-Eval vm_compute in ("<<<M3066>>>" ++ check (runes_of_ascii "packet A {
-}
-// c" ++ [12288]%N)).
-Eval vm_compute in ("<<<M3159>>>" ++ check (runes_of_ascii "MetaData M {
-}// c")).
-Eval vm_compute in ("<<<M3099>>>" ++ check (runes_of_ascii "packet A {
-}// c" ++ [8233]%N)).
-Eval vm_compute in ("<<<M1016>>>" ++ check (runes_of_ascii "
-MetaData As{
+3 }")).
+Eval vm_compute in ("<<<M3866>>>" ++ check (runes_of_ascii "options {
+    a1 = 1;
 }")).
-Eval vm_compute in ("<<<M290>>>" ++ check (runes_of_ascii "options{  }
+Eval vm_compute in ("<<<M925>>>" ++ check (runes_of_ascii "packet msg_type
+{ }
 ")).
-Eval vm_compute in ("<<<M2826>>>" ++ check (runes_of_ascii "W" ++ [14; 65533]%N ++ runes_of_ascii "3" ++ [65533; 1970; 65533; 65533]%N ++ runes_of_ascii "HU>")).
-Eval vm_compute in ("<<<M2455>>>" ++ check (runes_of_ascii "optionss")).
-Eval vm_compute in ("<<<M984>>>" ++ check (runes_of_ascii "
- // c")).
-Eval vm_compute in ("<<<M2434>>>" ++ check (runes_of_ascii "zchar")).
-Eval vm_compute in ("<<<M3130>>>" ++ check (runes_of_ascii "// c" ++ [8203]%N)).
-Eval vm_compute in ("<<<M454>>>" ++ check (runes_of_ascii "  
+Eval vm_compute in ("<<<M1764>>>" ++ check (runes_of_ascii "options { }options {")).
+Eval vm_compute in ("<<<M2796>>>" ++ check (runes_of_ascii ", root as char[ o :")).
+Eval vm_compute in ("<<<M2846>>>" ++ check (runes_of_ascii "Q,OfTqw6\RO}Mcbo,K")).
+Eval vm_compute in ("<<<M3137>>>" ++ check (runes_of_ascii "// c" ++ [65279]%N ++ runes_of_ascii "
+packet A {
+}")).
+Eval vm_compute in ("<<<M3084>>>" ++ check (runes_of_ascii "packet A {
+}// c" ++ [8192]%N)).
+Eval vm_compute in ("<<<M931>>>" ++ check (runes_of_ascii "options
+    { }")).
+Eval vm_compute in ("<<<M569>>>" ++ check (runes_of_ascii "
+
+/// triple
 ")).
-Eval vm_compute in ("<<<M2686>>>" ++ check (runes_of_ascii " " ++ [12]%N ++ runes_of_ascii " ")).
-Eval vm_compute in ("<<<M2492>>>" ++ check (runes_of_ascii "@")).
+Eval vm_compute in ("<<<M4439>>>" ++ check (runes_of_ascii "// a // b
+")).
+Eval vm_compute in ("<<<M2481>>>" ++ check (runes_of_ascii "@leftpad")).
+Eval vm_compute in ("<<<M2450>>>" ++ check (runes_of_ascii "falsey")).
+Eval vm_compute in ("<<<M2487>>>" ++ check (runes_of_ascii "@tag(")).
+Eval vm_compute in ("<<<M665>>>" ++ check (runes_of_ascii "
+//
+")).
+Eval vm_compute in ("<<<M2468>>>" ++ check (runes_of_ascii "'0'")).
+Eval vm_compute in ("<<<M2451>>>" ++ check (runes_of_ascii "as")).
+Eval vm_compute in ("<<<M2673>>>" ++ check (runes_of_ascii "x")).
